@@ -870,6 +870,15 @@ theorem afterFail_reloadFailed (U : List Prov) (hU : SumsOK U) (f : Faults) (s :
   | true => exact (hr.2 hb).1
   | false => simp [hb] at h; exact absurd h ho
 
+theorem afterFailUndo_inv (U : List Prov) (hU : SumsOK U) (v : Variant) (f : Faults) (s : Auth) (o : AuthOut)
+    (u : Cache → Cache) (ho : o ≠ .reloadFailed) (hdb : DBInv U s.db)
+    (h : (afterFailUndo v f s o u).2 ≠ .reloadFailed) :
+    AuthInv U (afterFailUndo v f s o u).1 ∧ (afterFailUndo v f s o u).1.db = s.db ∧
+      (afterFailUndo v f s o u).1.engine = s.engine ∧ (afterFailUndo v f s o u).2 = o := by
+  rw [afterFailUndo_snd] at h
+  rw [afterFailUndo_eq v f s o u (.inl h)]
+  exact afterFail_inv U hU f s o ho hdb h
+
 theorem cache_remove_keeps {s : Cache} {id : Str} {A' : AColl} {e : Option AErr} (hi : AInv s.A) (hc : CInv s.A)
     (h : s.A.remove s.provName id = .val (A', e)) : AInv A' ∧ CInv A' := by
   have := cstep_admin Variant.fixed s (.aRemove id) hi
@@ -887,20 +896,20 @@ theorem cache_update_keeps {v : Variant} (hv : v.fixUpdate = true) {s : Cache} {
 
 /-- `removeAdmin` (lock held): accepted ⇒ exactly that administrator is gone from cache and
     database; refused or failed (with the reload succeeding) ⇒ invariant intact, database untouched -/
-theorem removeAdmin1_spec (U : List Prov) (hU : SumsOK U) (f : Faults) (s : Auth) (id : Str) (E : List Ent)
+theorem removeAdmin1_spec (U : List Prov) (hU : SumsOK U) (v : Variant) (f : Faults) (s : Auth) (id : Str) (E : List Ent)
     (h : Agrees U s.cache s.db E) :
-    ((Auth.removeAdmin1 f s id).2 = .ok →
-        Agrees U (Auth.removeAdmin1 f s id).1.cache (Auth.removeAdmin1 f s id).1.db
+    ((Auth.removeAdmin1 v f s id).2 = .ok →
+        Agrees U (Auth.removeAdmin1 v f s id).1.cache (Auth.removeAdmin1 v f s id).1.db
           (E.filter (fun e => decide (e.2.id ≠ id))) ∧
-        (Auth.removeAdmin1 f s id).1.cache.P = s.cache.P ∧
-        (Auth.removeAdmin1 f s id).1.db.provs = s.db.provs ∧
-        (Auth.removeAdmin1 f s id).1.db.adms = s.db.adms.filter (fun a => decide (a.id ≠ id)) ∧
-        (Auth.removeAdmin1 f s id).1.db.policy = s.db.policy ∧
-        (Auth.removeAdmin1 f s id).1.engine = s.engine ∧
+        (Auth.removeAdmin1 v f s id).1.cache.P = s.cache.P ∧
+        (Auth.removeAdmin1 v f s id).1.db.provs = s.db.provs ∧
+        (Auth.removeAdmin1 v f s id).1.db.adms = s.db.adms.filter (fun a => decide (a.id ≠ id)) ∧
+        (Auth.removeAdmin1 v f s id).1.db.policy = s.db.policy ∧
+        (Auth.removeAdmin1 v f s id).1.engine = s.engine ∧
         (∃ n adm, (n, adm) ∈ E ∧ adm.id = id ∧ ¬(adm.super = true ∧ s.cache.A.superCount = 1))) ∧
-    ((Auth.removeAdmin1 f s id).2 ≠ .ok → (Auth.removeAdmin1 f s id).2 ≠ .reloadFailed →
-        AuthInv U (Auth.removeAdmin1 f s id).1 ∧ (Auth.removeAdmin1 f s id).1.db = s.db ∧
-        (Auth.removeAdmin1 f s id).1.engine = s.engine) := by
+    ((Auth.removeAdmin1 v f s id).2 ≠ .ok → (Auth.removeAdmin1 v f s id).2 ≠ .reloadFailed →
+        AuthInv U (Auth.removeAdmin1 v f s id).1 ∧ (Auth.removeAdmin1 v f s id).1.db = s.db ∧
+        (Auth.removeAdmin1 v f s id).1.engine = s.engine) := by
   unfold Auth.removeAdmin1
   cases hr : s.cache.A.remove s.cache.provName id with
   | crash => exact ⟨by simp, fun _ _ => ⟨⟨E, h⟩, rfl, rfl⟩⟩
@@ -914,14 +923,14 @@ theorem removeAdmin1_spec (U : List Prov) (hU : SumsOK U) (f : Faults) (s : Auth
       obtain ⟨hi', hc'⟩ := cache_remove_keeps h.ast.ainv h.ast.cinv hr
       by_cases hb : s.calls + 1 ∈ f
       · simp only [List.contains_eq_mem, hb, decide_true, if_true]
-        have haf := afterFail_inv U hU f
+        have haf := fun u => afterFailUndo_inv U hU v f
           { cache := { P := s.cache.P, A := A' }, db := s.db, engine := s.engine, calls := s.calls + 1 }
-          .storeFailed (by simp) h.dbinv
+          .storeFailed u (by simp) h.dbinv
         refine ⟨fun hok => ?_, fun _ hnr => ?_⟩
         · exfalso
-          have := haf (by rw [hok]; simp)
+          have := haf _ (by rw [hok]; simp)
           rw [hok] at this; simp at this
-        · have := haf hnr
+        · have := haf _ hnr
           exact ⟨this.1, this.2.1, this.2.2.1⟩
       · simp only [List.contains_eq_mem, hb, decide_false, Bool.false_eq_true, if_false]
         refine ⟨fun _ => ⟨?_, trivial, trivial, trivial, trivial, trivial, n, adm, hE, hid, hlast⟩, by simp⟩
@@ -1011,9 +1020,9 @@ theorem updateAdmin_inv (U : List Prov) (hU : SumsOK U) (v : Variant) (hv : v.fi
       obtain ⟨hi', hc'⟩ := cache_update_keeps hv h.ast.ainv h.ast.cinv hu
       by_cases hb : 0 + 1 ∈ f
       · simp only [List.contains_eq_mem, hb, decide_true, if_true] at hnr ⊢
-        exact (afterFail_inv U hU f
+        exact (afterFailUndo_inv U hU _ f
           { cache := { P := s.cache.P, A := A' }, db := s.db, engine := s.engine, calls := 0 + 1 }
-          .storeFailed (by simp) h.dbinv hnr).1
+          .storeFailed _ (by simp) h.dbinv hnr).1
       · simp only [List.contains_eq_mem, hb, decide_false, Bool.false_eq_true, if_false]
         obtain ⟨adm, hmem, hid, hcase⟩ := AColl.update_ok hv h.ast.ainv hu
         subst hid
@@ -1050,8 +1059,8 @@ theorem removeAdmin_inv (U : List Prov) (hU : SumsOK U) (v : Variant) (f : Fault
   obtain ⟨E, h⟩ := h
   unfold Auth.step at hnr ⊢
   simp only at hnr ⊢
-  have sp := removeAdmin1_spec U hU f { s with calls := 0 } id E h
-  by_cases hok : (Auth.removeAdmin1 f { s with calls := 0 } id).2 = .ok
+  have sp := removeAdmin1_spec U hU v f { s with calls := 0 } id E h
+  by_cases hok : (Auth.removeAdmin1 v f { s with calls := 0 } id).2 = .ok
   · exact ⟨_, (sp.1 hok).1⟩
   · exact (sp.2 hok hnr).1
 
@@ -1068,6 +1077,8 @@ theorem storeProv_inv (U : List Prov) (hU : SumsOK U) (v : Variant) (f : Faults)
   simp only [tick]
   split
   · exact ⟨E, h⟩
+  split
+  · exact ⟨E, h⟩
   rename_i hname
   split
   · exact ⟨E, h⟩
@@ -1076,6 +1087,9 @@ theorem storeProv_inv (U : List Prov) (hU : SumsOK U) (v : Variant) (f : Faults)
   | some o => exact ⟨E, h⟩
   | none =>
   simp only
+  by_cases hini : p.initOK = false
+  · rw [if_pos hini]; exact ⟨E, h⟩
+  rw [if_neg hini]
   by_cases hb : 0 + 1 ∈ f
   · simp only [List.contains_eq_mem, hb, decide_true, if_true]; exact ⟨E, h⟩
   simp only [List.contains_eq_mem, hb, decide_false, Bool.false_eq_true, if_false]
@@ -1259,11 +1273,17 @@ theorem updateProv_inv (U : List Prov) (hU : SumsOK U) (v : Variant) (hv : v.fix
   obtain ⟨E, h⟩ := h
   unfold Auth.step at hnr ⊢
   simp only [tick] at hnr ⊢
+  by_cases hg : v.fixDetails = true ∧ p.conv = false
+  · rw [if_pos hg]; exact ⟨E, h⟩
+  rw [if_neg hg] at hnr ⊢
   generalize (if v.fixPolName = true then (s.cache.provName p.id).getD p.name else p.name) = nm at hnr ⊢
   cases hpc : Auth.provPolicyCheck s.cache.A nm p with
   | some o => exact ⟨E, h⟩
   | none =>
   simp only [hpc] at hnr ⊢
+  by_cases hini : p.initOK = false
+  · rw [if_pos hini]; exact ⟨E, h⟩
+  rw [if_neg hini] at hnr ⊢
   have full := PColl.update_full s.cache.P p h.pinv (hU.1 p hpU) (fun e he heq => hU.2 e.2 (h.pU e he) p hpU heq)
   cases hup : s.cache.P.update p with
   | mk P' e =>
@@ -1279,9 +1299,9 @@ theorem updateProv_inv (U : List Prov) (hU : SumsOK U) (v : Variant) (hv : v.fix
       simp only [hup] at hnr ⊢
       by_cases hb : 0 + 1 ∈ f
       · simp only [List.contains_eq_mem, hb, decide_true, if_true] at hnr ⊢
-        exact (afterFail_inv U hU f
+        exact (afterFailUndo_inv U hU _ f
           { cache := { P := P', A := s.cache.A }, db := s.db, engine := s.engine, calls := 0 + 1 }
-          .storeFailed (by simp) h.dbinv hnr).1
+          .storeFailed _ (by simp) h.dbinv hnr).1
       · simp only [List.contains_eq_mem, hb, decide_false, Bool.false_eq_true, if_false] at hnr ⊢
         have holdDB : old ∈ s.db.provs := (h.agreeP old).mp hold
         have hpn : s.cache.provName p.id = some old.name := by
@@ -1338,18 +1358,18 @@ theorem filter_notin_cons {α : Type} (key : α → Str) (l : List α) (id : Str
 /-- the loop of `RemoveProvisioner`: when it runs to the end every listed administrator with one
     of these ids is gone from cache and database and nothing else has changed; when it stops early
     (refusal or storage failure with a successful reload) the invariant still holds -/
-theorem removeAdmins_spec (U : List Prov) (hU : SumsOK U) (f : Faults) : ∀ (ids : List Str) (s : Auth) (E : List Ent),
+theorem removeAdmins_spec (U : List Prov) (hU : SumsOK U) (v : Variant) (f : Faults) : ∀ (ids : List Str) (s : Auth) (E : List Ent),
     Agrees U s.cache s.db E →
-    ((Auth.removeAdmins f s ids).2 = .ok →
-        Agrees U (Auth.removeAdmins f s ids).1.cache (Auth.removeAdmins f s ids).1.db
+    ((Auth.removeAdmins v f s ids).2 = .ok →
+        Agrees U (Auth.removeAdmins v f s ids).1.cache (Auth.removeAdmins v f s ids).1.db
           (E.filter (fun e => !ids.contains e.2.id)) ∧
-        (Auth.removeAdmins f s ids).1.cache.P = s.cache.P ∧
-        (Auth.removeAdmins f s ids).1.db.provs = s.db.provs ∧
-        (Auth.removeAdmins f s ids).1.db.adms = s.db.adms.filter (fun a => !ids.contains a.id) ∧
-        (Auth.removeAdmins f s ids).1.db.policy = s.db.policy ∧
-        (Auth.removeAdmins f s ids).1.engine = s.engine) ∧
-    ((Auth.removeAdmins f s ids).2 ≠ .reloadFailed → AuthInv U (Auth.removeAdmins f s ids).1 ∧
-        (Auth.removeAdmins f s ids).1.db.policy = s.db.policy ∧ (Auth.removeAdmins f s ids).1.engine = s.engine)
+        (Auth.removeAdmins v f s ids).1.cache.P = s.cache.P ∧
+        (Auth.removeAdmins v f s ids).1.db.provs = s.db.provs ∧
+        (Auth.removeAdmins v f s ids).1.db.adms = s.db.adms.filter (fun a => !ids.contains a.id) ∧
+        (Auth.removeAdmins v f s ids).1.db.policy = s.db.policy ∧
+        (Auth.removeAdmins v f s ids).1.engine = s.engine) ∧
+    ((Auth.removeAdmins v f s ids).2 ≠ .reloadFailed → AuthInv U (Auth.removeAdmins v f s ids).1 ∧
+        (Auth.removeAdmins v f s ids).1.db.policy = s.db.policy ∧ (Auth.removeAdmins v f s ids).1.engine = s.engine)
   | [], s, E, h => by
     have hE : E.filter (fun e => !([] : List Str).contains e.2.id) = E := by
       rw [List.filter_eq_self]; intro e _; simp
@@ -1358,13 +1378,13 @@ theorem removeAdmins_spec (U : List Prov) (hU : SumsOK U) (f : Faults) : ∀ (id
     unfold Auth.removeAdmins
     exact ⟨fun _ => ⟨by rw [hE]; exact h, rfl, rfl, hA.symm, rfl, rfl⟩, fun _ => ⟨⟨E, h⟩, rfl, rfl⟩⟩
   | id :: r, s, E, h => by
-    have sp := removeAdmin1_spec U hU f s id E h
+    have sp := removeAdmin1_spec U hU v f s id E h
     unfold Auth.removeAdmins
     simp only
-    by_cases hok : (Auth.removeAdmin1 f s id).2 = .ok
+    by_cases hok : (Auth.removeAdmin1 v f s id).2 = .ok
     · rw [if_pos hok]
       obtain ⟨hag, hP, hprovs, hadms, hpol, heng, _⟩ := sp.1 hok
-      have ih := removeAdmins_spec U hU f r (Auth.removeAdmin1 f s id).1 _ hag
+      have ih := removeAdmins_spec U hU v f r (Auth.removeAdmin1 v f s id).1 _ hag
       refine ⟨fun hok2 => ?_, fun hnr => ?_⟩
       · obtain ⟨hag2, hP2, hprovs2, hadms2, hpol2, heng2⟩ := ih.1 hok2
         refine ⟨?_, by rw [hP2, hP], by rw [hprovs2, hprovs], ?_, by rw [hpol2, hpol], by rw [heng2, heng]⟩
@@ -1414,12 +1434,12 @@ theorem removeProv_spec (U : List Prov) (hU : SumsOK U) (v : Variant) (f : Fault
     split
     · exact ⟨fun _ => ⟨E, h⟩, by simp⟩
     rename_i hguard
-    have loop := removeAdmins_spec U hU f (((s.cache.A.byProv.get p.name).getD []).map (·.id))
+    have loop := removeAdmins_spec U hU v f (((s.cache.A.byProv.get p.name).getD []).map (·.id))
       { s with calls := 0 } E h
-    by_cases hok : (Auth.removeAdmins f { s with calls := 0 } (((s.cache.A.byProv.get p.name).getD []).map (·.id))).2 = .ok
+    by_cases hok : (Auth.removeAdmins v f { s with calls := 0 } (((s.cache.A.byProv.get p.name).getD []).map (·.id))).2 = .ok
     · rw [if_neg (by simpa using hok)]
       obtain ⟨hag, hP, hprovs, hadms, hpol, heng⟩ := loop.1 hok
-      generalize Auth.removeAdmins f { s with calls := 0 } (((s.cache.A.byProv.get p.name).getD []).map (·.id)) = r at *
+      generalize Auth.removeAdmins v f { s with calls := 0 } (((s.cache.A.byProv.get p.name).getD []).map (·.id)) = r at *
       have hp' : p ∈ r.1.cache.P.provs := by rw [hP]; exact hp.1
       have hrs := PColl.remove_succeeds hag.pinv hp'
       have hr := PColl.remove_spec r.1.cache.P p.id hag.pinv
@@ -1447,15 +1467,15 @@ theorem removeProv_spec (U : List Prov) (hU : SumsOK U) (v : Variant) (f : Fault
               exact absurd ((group_is_provisioner h hp.1 ((h.agreeA a).mpr ha)).mp hc) (by rw [← hp.2]; exact hne)
         by_cases hb : r.1.calls + 1 ∈ f
         · simp only [List.contains_eq_mem, hb, decide_true, if_true]
-          have haf := afterFail_inv U hU f
+          have haf := fun u => afterFailUndo_inv U hU v f
             { cache := { P := P', A := r.1.cache.A }, db := r.1.db, engine := r.1.engine, calls := r.1.calls + 1 }
-            .storeFailed (by simp) hag.dbinv
-          refine ⟨fun hnr => (haf hnr).1, fun hok2 => ?_⟩
-          by_cases hnr : (afterFail f
+            .storeFailed u (by simp) hag.dbinv
+          refine ⟨fun hnr => (haf _ hnr).1, fun hok2 => ?_⟩
+          rw [afterFailUndo_snd] at hok2
+          have := (afterFail_inv U hU f
             { cache := { P := P', A := r.1.cache.A }, db := r.1.db, engine := r.1.engine, calls := r.1.calls + 1 }
-            .storeFailed).2 = .reloadFailed
-          · rw [hnr] at hok2; cases hok2
-          · rw [(haf hnr).2.2.2] at hok2; cases hok2
+            .storeFailed (by simp) hag.dbinv (by rw [hok2]; simp)).2.2.2
+          rw [this] at hok2; cases hok2
         · simp only [List.contains_eq_mem, hb, decide_false, Bool.false_eq_true, if_false]
           refine ⟨fun _ => ⟨E.filter (fun e => !(((s.cache.A.byProv.get p.name).getD []).map (·.id)).contains e.2.id), ?_⟩,
             fun _ => ⟨⟨p, hp.1, hp.2.symm, hguard⟩, hadmsIff, ?_, hpol⟩⟩
@@ -1506,8 +1526,17 @@ theorem afterFail_frame (f : Faults) (s : Auth) (o : AuthOut) :
   unfold afterFail
   exact reload_frame f s
 
-theorem removeAdmin1_frame (f : Faults) (s : Auth) (id : Str) :
-    (Auth.removeAdmin1 f s id).1.db.policy = s.db.policy ∧ (Auth.removeAdmin1 f s id).1.engine = s.engine := by
+theorem afterFailUndo_frame (v : Variant) (f : Faults) (s : Auth) (o : AuthOut) (u : Cache → Cache) :
+    (afterFailUndo v f s o u).1.db = s.db ∧ (afterFailUndo v f s o u).1.engine = s.engine := by
+  unfold afterFailUndo
+  simp only
+  have := afterFail_frame f s o
+  split
+  · exact this
+  · exact this
+
+theorem removeAdmin1_frame (v : Variant) (f : Faults) (s : Auth) (id : Str) :
+    (Auth.removeAdmin1 v f s id).1.db.policy = s.db.policy ∧ (Auth.removeAdmin1 v f s id).1.engine = s.engine := by
   unfold Auth.removeAdmin1
   cases hr : s.cache.A.remove s.cache.provName id with
   | crash => exact ⟨rfl, rfl⟩
@@ -1519,20 +1548,20 @@ theorem removeAdmin1_frame (f : Faults) (s : Auth) (id : Str) :
       simp only [tick]
       by_cases hb : s.calls + 1 ∈ f
       · simp only [List.contains_eq_mem, hb, decide_true, if_true]
-        have := afterFail_frame f
-          { cache := { P := s.cache.P, A := A' }, db := s.db, engine := s.engine, calls := s.calls + 1 } .storeFailed
-        exact ⟨by rw [this.1], this.2⟩
+        have := fun u => afterFailUndo_frame v f
+          { cache := { P := s.cache.P, A := A' }, db := s.db, engine := s.engine, calls := s.calls + 1 } .storeFailed u
+        exact ⟨by rw [(this _).1], (this _).2⟩
       · simp [hb]
 
-theorem removeAdmins_frame (f : Faults) : ∀ (ids : List Str) (s : Auth),
-    (Auth.removeAdmins f s ids).1.db.policy = s.db.policy ∧ (Auth.removeAdmins f s ids).1.engine = s.engine
+theorem removeAdmins_frame (v : Variant) (f : Faults) : ∀ (ids : List Str) (s : Auth),
+    (Auth.removeAdmins v f s ids).1.db.policy = s.db.policy ∧ (Auth.removeAdmins v f s ids).1.engine = s.engine
   | [], s => by unfold Auth.removeAdmins; exact ⟨rfl, rfl⟩
   | id :: r, s => by
     unfold Auth.removeAdmins
     simp only
-    have h1 := removeAdmin1_frame f s id
+    have h1 := removeAdmin1_frame v f s id
     split
-    · have := removeAdmins_frame f r (Auth.removeAdmin1 f s id).1
+    · have := removeAdmins_frame v f r (Auth.removeAdmin1 v f s id).1
       exact ⟨by rw [this.1, h1.1], by rw [this.2, h1.2]⟩
     · exact h1
 
@@ -1565,7 +1594,7 @@ theorem step_frame (v : Variant) (f : Faults) (s : Auth) (op : AOp) (hop : isPol
       | some e =>
         have := afterFail_frame f
           { cache := { P := s.cache.P, A := A },
-            db := { provs := s.db.provs, adms := insDB (fun x => x.id) a s.db.adms, policy := s.db.policy },
+            db := { provs := s.db.provs, adms := insDB (fun x => x.id) a s.db.adms, policy := s.db.policy, used := s.db.used },
             engine := s.engine, calls := 0 + 1 } .cacheFailed
         exact ⟨by rw [this.1], this.2⟩
   | updateAdmin id t =>
@@ -1577,16 +1606,20 @@ theorem step_frame (v : Variant) (f : Faults) (s : Auth) (op : AOp) (hop : isPol
     · rename_i A _
       by_cases hb : 0 + 1 ∈ f
       · simp only [List.contains_eq_mem, hb, decide_true, if_true]
-        have := afterFail_frame f
-          { cache := { P := s.cache.P, A := A }, db := s.db, engine := s.engine, calls := 0 + 1 } .storeFailed
-        exact ⟨by rw [this.1], this.2⟩
+        have := fun u => afterFailUndo_frame v f
+          { cache := { P := s.cache.P, A := A }, db := s.db, engine := s.engine, calls := 0 + 1 } .storeFailed u
+        exact ⟨by rw [(this _).1], (this _).2⟩
       · simp [hb]
   | removeAdmin id =>
     unfold Auth.step
-    exact removeAdmin1_frame f { s with calls := 0 } id
+    exact removeAdmin1_frame v f { s with calls := 0 } id
   | storeProv p =>
     unfold Auth.step
     simp only [tick]
+    split
+    · exact ⟨rfl, rfl⟩
+    split
+    · exact ⟨rfl, rfl⟩
     split
     · exact ⟨rfl, rfl⟩
     split
@@ -1607,7 +1640,7 @@ theorem step_frame (v : Variant) (f : Faults) (s : Auth) (op : AOp) (hop : isPol
       | some e =>
         have := afterFail_frame f
           { cache := { P := P, A := s.cache.A },
-            db := { provs := insDB (fun x => x.id) p s.db.provs, adms := s.db.adms, policy := s.db.policy },
+            db := { provs := insDB (fun x => x.id) p s.db.provs, adms := s.db.adms, policy := s.db.policy, used := s.db.used },
             engine := s.engine, calls := 0 + 1 } .cacheFailed
         exact ⟨by rw [this.1], this.2⟩
   | updateProv p =>
@@ -1617,20 +1650,24 @@ theorem step_frame (v : Variant) (f : Faults) (s : Auth) (op : AOp) (hop : isPol
     · exact ⟨rfl, rfl⟩
     split
     · exact ⟨rfl, rfl⟩
+    split
+    · exact ⟨rfl, rfl⟩
+    split
+    · exact ⟨rfl, rfl⟩
     · exact ⟨rfl, rfl⟩
     · rename_i P _
       by_cases hb : 0 + 1 ∈ f
       · simp only [List.contains_eq_mem, hb, decide_true, if_true]
-        have := afterFail_frame f
-          { cache := { P := P, A := s.cache.A }, db := s.db, engine := s.engine, calls := 0 + 1 } .storeFailed
-        exact ⟨by rw [this.1], this.2⟩
+        have := fun u => afterFailUndo_frame v f
+          { cache := { P := P, A := s.cache.A }, db := s.db, engine := s.engine, calls := 0 + 1 } .storeFailed u
+        exact ⟨by rw [(this _).1], (this _).2⟩
       · simp only [List.contains_eq_mem, hb, decide_false, Bool.false_eq_true, if_false]
         split
         · cases buildCache.goA P {} s.cache.A.sorted <;> exact ⟨rfl, rfl⟩
         split
         · have := afterFail_frame f
             { cache := { P := P, A := s.cache.A },
-              db := { provs := s.db.provs.map (fun q => if q.id = p.id then p else q), adms := s.db.adms, policy := s.db.policy },
+              db := { provs := s.db.provs.map (fun q => if q.id = p.id then p else q), adms := s.db.adms, policy := s.db.policy, used := s.db.used },
               engine := s.engine, calls := 0 + 1 } .ok
           exact ⟨by rw [this.1], this.2⟩
         · exact ⟨rfl, rfl⟩
@@ -1642,18 +1679,18 @@ theorem step_frame (v : Variant) (f : Faults) (s : Auth) (op : AOp) (hop : isPol
     split
     · exact ⟨rfl, rfl⟩
     rename_i p _ _
-    have hl := removeAdmins_frame f (((s.cache.A.byProv.get p.name).getD []).map (·.id)) { s with calls := 0 }
+    have hl := removeAdmins_frame v f (((s.cache.A.byProv.get p.name).getD []).map (·.id)) { s with calls := 0 }
     split
     · exact hl
-    generalize Auth.removeAdmins f { s with calls := 0 } (((s.cache.A.byProv.get p.name).getD []).map (·.id)) = r at *
+    generalize Auth.removeAdmins v f { s with calls := 0 } (((s.cache.A.byProv.get p.name).getD []).map (·.id)) = r at *
     split
     · exact hl
     · rename_i P' _
       by_cases hb : r.1.calls + 1 ∈ f
       · simp only [List.contains_eq_mem, hb, decide_true, if_true]
-        have := afterFail_frame f
-          { cache := { P := P', A := r.1.cache.A }, db := r.1.db, engine := r.1.engine, calls := r.1.calls + 1 } .storeFailed
-        exact ⟨by rw [this.1]; exact hl.1, by rw [this.2]; exact hl.2⟩
+        have := fun u => afterFailUndo_frame v f
+          { cache := { P := P', A := r.1.cache.A }, db := r.1.db, engine := r.1.engine, calls := r.1.calls + 1 } .storeFailed u
+        exact ⟨by rw [(this _).1]; exact hl.1, by rw [(this _).2]; exact hl.2⟩
       · simp only [List.contains_eq_mem, hb, decide_false, Bool.false_eq_true, if_false]
         exact hl
   | createPolicy cur p => simp [isPolicyOp] at hop
@@ -1785,8 +1822,14 @@ theorem afterFail_rf (U : List Prov) (hU : SumsOK U) (f : Faults) (s : Auth) (o 
     (h : (afterFail f s o).2 = .reloadFailed) : TwoFaults f :=
   ⟨s.calls, hin, afterFail_reloadFailed U hU f s o ho hdb h⟩
 
-theorem removeAdmin1_rf (U : List Prov) (hU : SumsOK U) (f : Faults) (s : Auth) (id : Str) (E : List Ent)
-    (h : Agrees U s.cache s.db E) (hrf : (Auth.removeAdmin1 f s id).2 = .reloadFailed) : TwoFaults f := by
+theorem afterFailUndo_rf (U : List Prov) (hU : SumsOK U) (v : Variant) (f : Faults) (s : Auth) (o : AuthOut)
+    (u : Cache → Cache) (ho : o ≠ .reloadFailed) (hdb : DBInv U s.db) (hin : s.calls ∈ f)
+    (h : (afterFailUndo v f s o u).2 = .reloadFailed) : TwoFaults f := by
+  rw [afterFailUndo_snd] at h
+  exact afterFail_rf U hU f s o ho hdb hin h
+
+theorem removeAdmin1_rf (U : List Prov) (hU : SumsOK U) (v : Variant) (f : Faults) (s : Auth) (id : Str) (E : List Ent)
+    (h : Agrees U s.cache s.db E) (hrf : (Auth.removeAdmin1 v f s id).2 = .reloadFailed) : TwoFaults f := by
   unfold Auth.removeAdmin1 at hrf
   cases hr : s.cache.A.remove s.cache.provName id with
   | crash => simp [hr] at hrf
@@ -1798,22 +1841,22 @@ theorem removeAdmin1_rf (U : List Prov) (hU : SumsOK U) (f : Faults) (s : Auth) 
       simp only [hr, tick] at hrf
       by_cases hb : s.calls + 1 ∈ f
       · simp only [List.contains_eq_mem, hb, decide_true, if_true] at hrf
-        exact afterFail_rf U hU f
+        exact afterFailUndo_rf U hU _ f
           { cache := { P := s.cache.P, A := A' }, db := s.db, engine := s.engine, calls := s.calls + 1 }
-          .storeFailed (by simp) h.dbinv hb hrf
+          .storeFailed _ (by simp) h.dbinv hb hrf
       · simp [hb] at hrf
 
-theorem removeAdmins_rf (U : List Prov) (hU : SumsOK U) (f : Faults) : ∀ (ids : List Str) (s : Auth) (E : List Ent),
-    Agrees U s.cache s.db E → (Auth.removeAdmins f s ids).2 = .reloadFailed → TwoFaults f
+theorem removeAdmins_rf (U : List Prov) (hU : SumsOK U) (v : Variant) (f : Faults) : ∀ (ids : List Str) (s : Auth) (E : List Ent),
+    Agrees U s.cache s.db E → (Auth.removeAdmins v f s ids).2 = .reloadFailed → TwoFaults f
   | [], s, E, _, hrf => by unfold Auth.removeAdmins at hrf; cases hrf
   | id :: r, s, E, h, hrf => by
     unfold Auth.removeAdmins at hrf
     simp only at hrf
-    by_cases hok : (Auth.removeAdmin1 f s id).2 = .ok
+    by_cases hok : (Auth.removeAdmin1 v f s id).2 = .ok
     · rw [if_pos hok] at hrf
-      exact removeAdmins_rf U hU f r _ _ ((removeAdmin1_spec U hU f s id E h).1 hok).1 hrf
+      exact removeAdmins_rf U hU v f r _ _ ((removeAdmin1_spec U hU v f s id E h).1 hok).1 hrf
     · rw [if_neg hok] at hrf
-      exact removeAdmin1_rf U hU f s id E h hrf
+      exact removeAdmin1_rf U hU v f s id E h hrf
 
 theorem provPolicyCheck_out {A : AColl} {nm : Str} {p : Prov} {o : AuthOut}
     (h : Auth.provPolicyCheck A nm p = some o) : o ≠ .reloadFailed := by
@@ -1875,18 +1918,20 @@ theorem reloadFailed_causes (U : List Prov) (hU : SumsOK U) (f : Faults) (s : Au
         simp only [hu] at hrf
         by_cases hb : 0 + 1 ∈ f
         · simp only [List.contains_eq_mem, hb, decide_true, if_true] at hrf
-          exact afterFail_rf U hU f
+          exact afterFailUndo_rf U hU _ f
             { cache := { P := s.cache.P, A := A' }, db := s.db, engine := s.engine, calls := 0 + 1 }
-            .storeFailed (by simp) hE.dbinv hb hrf
+            .storeFailed _ (by simp) hE.dbinv hb hrf
         · simp [hb] at hrf
   | removeAdmin id =>
     left
     unfold Auth.step at hrf
-    exact removeAdmin1_rf U hU f { s with calls := 0 } id E hE hrf
+    exact removeAdmin1_rf U hU _ f { s with calls := 0 } id E hE hrf
   | storeProv p =>
     exfalso
     unfold Auth.step at hrf
     simp only [tick] at hrf
+    split at hrf
+    · cases hrf
     split at hrf
     · cases hrf
     rename_i hname
@@ -1899,6 +1944,8 @@ theorem reloadFailed_causes (U : List Prov) (hU : SumsOK U) (f : Faults) (s : Au
       exact provPolicyCheck_out hpc hrf
     | none =>
     simp only [hpc] at hrf
+    split at hrf
+    · cases hrf
     by_cases hb : 0 + 1 ∈ f
     · simp [hb] at hrf
     simp only [List.contains_eq_mem, hb, decide_false, Bool.false_eq_true, if_false] at hrf
@@ -1918,6 +1965,8 @@ theorem reloadFailed_causes (U : List Prov) (hU : SumsOK U) (f : Faults) (s : Au
     left
     unfold Auth.step at hrf
     simp only [tick] at hrf
+    split at hrf
+    · cases hrf
     generalize (if Variant.fixed.fixPolName = true then (s.cache.provName p.id).getD p.name else p.name) = nm at hrf
     cases hpc : Auth.provPolicyCheck s.cache.A nm p with
     | some o =>
@@ -1925,6 +1974,8 @@ theorem reloadFailed_causes (U : List Prov) (hU : SumsOK U) (f : Faults) (s : Au
       exact absurd hrf (provPolicyCheck_out hpc)
     | none =>
     simp only [hpc] at hrf
+    split at hrf
+    · cases hrf
     cases hup : s.cache.P.update p with
     | mk P' e =>
       cases e with
@@ -1933,9 +1984,9 @@ theorem reloadFailed_causes (U : List Prov) (hU : SumsOK U) (f : Faults) (s : Au
         simp only [hup] at hrf
         by_cases hb : 0 + 1 ∈ f
         · simp only [List.contains_eq_mem, hb, decide_true, if_true] at hrf
-          exact afterFail_rf U hU f
+          exact afterFailUndo_rf U hU _ f
             { cache := { P := P', A := s.cache.A }, db := s.db, engine := s.engine, calls := 0 + 1 }
-            .storeFailed (by simp) hE.dbinv hb hrf
+            .storeFailed _ (by simp) hE.dbinv hb hrf
         · exfalso
           simp only [List.contains_eq_mem, hb, decide_false, Bool.false_eq_true, if_false, Variant.fixed, true_and] at hrf
           by_cases hren : s.cache.provName p.id ≠ some p.name
@@ -1953,12 +2004,12 @@ theorem reloadFailed_causes (U : List Prov) (hU : SumsOK U) (f : Faults) (s : Au
       simp only [hg] at hrf
       split at hrf
       · cases hrf
-      have loop := removeAdmins_spec U hU f (((s.cache.A.byProv.get p.name).getD []).map (·.id))
+      have loop := removeAdmins_spec U hU Variant.fixed f (((s.cache.A.byProv.get p.name).getD []).map (·.id))
         { s with calls := 0 } E hE
-      by_cases hok : (Auth.removeAdmins f { s with calls := 0 } (((s.cache.A.byProv.get p.name).getD []).map (·.id))).2 = .ok
+      by_cases hok : (Auth.removeAdmins Variant.fixed f { s with calls := 0 } (((s.cache.A.byProv.get p.name).getD []).map (·.id))).2 = .ok
       · rw [if_neg (by simpa using hok)] at hrf
         obtain ⟨hag, hP, _⟩ := loop.1 hok
-        generalize Auth.removeAdmins f { s with calls := 0 } (((s.cache.A.byProv.get p.name).getD []).map (·.id)) = r at *
+        generalize Auth.removeAdmins Variant.fixed f { s with calls := 0 } (((s.cache.A.byProv.get p.name).getD []).map (·.id)) = r at *
         have hrs := PColl.remove_succeeds hag.pinv (p := p) (by rw [hP]; exact hp.1)
         cases hrem : r.1.cache.P.remove p.id with
         | mk P' e =>
@@ -1966,12 +2017,12 @@ theorem reloadFailed_causes (U : List Prov) (hU : SumsOK U) (f : Faults) (s : Au
           simp only [hrem, tick] at hrf
           by_cases hb : r.1.calls + 1 ∈ f
           · simp only [List.contains_eq_mem, hb, decide_true, if_true] at hrf
-            exact afterFail_rf U hU f
+            exact afterFailUndo_rf U hU _ f
               { cache := { P := P', A := r.1.cache.A }, db := r.1.db, engine := r.1.engine, calls := r.1.calls + 1 }
-              .storeFailed (by simp) hag.dbinv hb hrf
+              .storeFailed _ (by simp) hag.dbinv hb hrf
           · simp [hb] at hrf
       · rw [if_pos (by simpa using hok)] at hrf
-        exact removeAdmins_rf U hU f _ { s with calls := 0 } E hE hrf
+        exact removeAdmins_rf U hU _ f _ { s with calls := 0 } E hE hrf
   | createPolicy cur p => exact .inr rfl
   | updatePolicy cur p => exact .inr rfl
   | removePolicy => exact .inr rfl
@@ -2100,8 +2151,8 @@ theorem inv_is_image {U : List Prov} {s : Auth} (h : FullInv U s) :
 
 /-! ## at least one super administrator remains — in the database, whatever fails -/
 
-theorem removeAdmin1_db (f : Faults) (s : Auth) (id : Str) (h : (Auth.removeAdmin1 f s id).2 ≠ .ok) :
-    (Auth.removeAdmin1 f s id).1.db = s.db := by
+theorem removeAdmin1_db (v : Variant) (f : Faults) (s : Auth) (id : Str) (h : (Auth.removeAdmin1 v f s id).2 ≠ .ok) :
+    (Auth.removeAdmin1 v f s id).1.db = s.db := by
   unfold Auth.removeAdmin1 at h ⊢
   cases hr : s.cache.A.remove s.cache.provName id with
   | crash => rfl
@@ -2113,8 +2164,8 @@ theorem removeAdmin1_db (f : Faults) (s : Auth) (id : Str) (h : (Auth.removeAdmi
       simp only [hr, tick] at h ⊢
       by_cases hb : s.calls + 1 ∈ f
       · simp only [List.contains_eq_mem, hb, decide_true, if_true]
-        exact (afterFail_frame f
-          { cache := { P := s.cache.P, A := A' }, db := s.db, engine := s.engine, calls := s.calls + 1 } .storeFailed).1
+        exact (afterFailUndo_frame _ f
+          { cache := { P := s.cache.P, A := A' }, db := s.db, engine := s.engine, calls := s.calls + 1 } .storeFailed _).1
       · simp [hb] at h
 
 theorem Agrees.count {U : List Prov} {cache : Cache} {db : DB} {E : List Ent} (h : Agrees U cache db E) :
@@ -2123,11 +2174,11 @@ theorem Agrees.count {U : List Prov} {cache : Cache} {db : DB} {E : List Ent} (h
   unfold CInv supers at this
   rw [this, nsuper_eq_of_same h.ast.ainv.nodup_id h.dbA h.agreeA]
 
-theorem removeAdmin1_super (U : List Prov) (hU : SumsOK U) (f : Faults) (s : Auth) (id : Str) (E : List Ent)
+theorem removeAdmin1_super (U : List Prov) (hU : SumsOK U) (v : Variant) (f : Faults) (s : Auth) (id : Str) (E : List Ent)
     (h : Agrees U s.cache s.db E) (h1 : 1 ≤ nsuper s.db.adms) :
-    1 ≤ nsuper (Auth.removeAdmin1 f s id).1.db.adms := by
-  by_cases hok : (Auth.removeAdmin1 f s id).2 = .ok
-  · obtain ⟨_, _, _, hadms, _, _, n, adm, hE, hid, hlast⟩ := (removeAdmin1_spec U hU f s id E h).1 hok
+    1 ≤ nsuper (Auth.removeAdmin1 v f s id).1.db.adms := by
+  by_cases hok : (Auth.removeAdmin1 v f s id).2 = .ok
+  · obtain ⟨_, _, _, hadms, _, _, n, adm, hE, hid, hlast⟩ := (removeAdmin1_spec U hU v f s id E h).1 hok
     rw [hadms]
     have hmem : adm ∈ s.db.adms := (h.agreeA adm).mp (h.ast.grep.mem_listed hE)
     have := nsuper_remove h.dbA hmem
@@ -2138,18 +2189,18 @@ theorem removeAdmin1_super (U : List Prov) (hU : SumsOK U) (f : Faults) (s : Aut
       omega
     · simp only [hs, if_false, Bool.false_eq_true] at this
       omega
-  · rw [removeAdmin1_db f s id hok]; exact h1
+  · rw [removeAdmin1_db v f s id hok]; exact h1
 
-theorem removeAdmins_super (U : List Prov) (hU : SumsOK U) (f : Faults) : ∀ (ids : List Str) (s : Auth) (E : List Ent),
-    Agrees U s.cache s.db E → 1 ≤ nsuper s.db.adms → 1 ≤ nsuper (Auth.removeAdmins f s ids).1.db.adms
+theorem removeAdmins_super (U : List Prov) (hU : SumsOK U) (v : Variant) (f : Faults) : ∀ (ids : List Str) (s : Auth) (E : List Ent),
+    Agrees U s.cache s.db E → 1 ≤ nsuper s.db.adms → 1 ≤ nsuper (Auth.removeAdmins v f s ids).1.db.adms
   | [], s, E, _, h1 => by unfold Auth.removeAdmins; exact h1
   | id :: r, s, E, h, h1 => by
     unfold Auth.removeAdmins
     simp only
-    have hs := removeAdmin1_super U hU f s id E h h1
-    by_cases hok : (Auth.removeAdmin1 f s id).2 = .ok
+    have hs := removeAdmin1_super U hU v f s id E h h1
+    by_cases hok : (Auth.removeAdmin1 v f s id).2 = .ok
     · rw [if_pos hok]
-      exact removeAdmins_super U hU f r _ _ ((removeAdmin1_spec U hU f s id E h).1 hok).1 hs
+      exact removeAdmins_super U hU v f r _ _ ((removeAdmin1_spec U hU v f s id E h).1 hok).1 hs
     · rw [if_neg hok]; exact hs
 
 theorem reloadPolicy_db (v : Variant) (f : Faults) (s : Auth) : (Auth.reloadPolicy v f s).1.db = s.db := by
@@ -2215,7 +2266,7 @@ theorem auth_super_remains (U : List Prov) (hU : SumsOK U) (f : Faults) (s : Aut
         simp only
         rw [(afterFail_frame f
           { cache := { P := s.cache.P, A := A },
-            db := { provs := s.db.provs, adms := insDB (fun x => x.id) a s.db.adms, policy := s.db.policy },
+            db := { provs := s.db.provs, adms := insDB (fun x => x.id) a s.db.adms, policy := s.db.policy, used := s.db.used },
             engine := s.engine, calls := 0 + 1 } .cacheFailed).1]
         exact hins
   | updateAdmin id t =>
@@ -2231,8 +2282,8 @@ theorem auth_super_remains (U : List Prov) (hU : SumsOK U) (f : Faults) (s : Aut
         simp only
         by_cases hb : 0 + 1 ∈ f
         · simp only [List.contains_eq_mem, hb, decide_true, if_true]
-          rw [(afterFail_frame f
-            { cache := { P := s.cache.P, A := A' }, db := s.db, engine := s.engine, calls := 0 + 1 } .storeFailed).1]
+          rw [(afterFailUndo_frame _ f
+            { cache := { P := s.cache.P, A := A' }, db := s.db, engine := s.engine, calls := 0 + 1 } .storeFailed _).1]
           exact h1
         · simp only [List.contains_eq_mem, hb, decide_false, Bool.false_eq_true, if_false]
           obtain ⟨adm, hmem, hid, hcase⟩ := AColl.update_ok rfl hE.ast.ainv hu
@@ -2250,10 +2301,12 @@ theorem auth_super_remains (U : List Prov) (hU : SumsOK U) (f : Faults) (s : Aut
               cases t <;> simp only [if_true, if_false, Bool.false_eq_true] at this <;> omega
   | removeAdmin id =>
     unfold Auth.step
-    exact removeAdmin1_super U hU f { s with calls := 0 } id E hE h1
+    exact removeAdmin1_super U hU _ f { s with calls := 0 } id E hE h1
   | storeProv p =>
     unfold Auth.step
     simp only [tick]
+    split
+    · exact h1
     split
     · exact h1
     split
@@ -2262,6 +2315,8 @@ theorem auth_super_remains (U : List Prov) (hU : SumsOK U) (f : Faults) (s : Aut
     | some o => exact h1
     | none =>
     simp only
+    split
+    · exact h1
     by_cases hb : 0 + 1 ∈ f
     · simp only [List.contains_eq_mem, hb, decide_true, if_true]; exact h1
     simp only [List.contains_eq_mem, hb, decide_false, Bool.false_eq_true, if_false]
@@ -2277,17 +2332,21 @@ theorem auth_super_remains (U : List Prov) (hU : SumsOK U) (f : Faults) (s : Aut
         simp only
         rw [(afterFail_frame f
           { cache := { P := P, A := s.cache.A },
-            db := { provs := insDB (fun x => x.id) p s.db.provs, adms := s.db.adms, policy := s.db.policy },
+            db := { provs := insDB (fun x => x.id) p s.db.provs, adms := s.db.adms, policy := s.db.policy, used := s.db.used },
             engine := s.engine, calls := 0 + 1 } .cacheFailed).1]
         exact h1
   | updateProv p =>
     unfold Auth.step
     simp only [tick]
+    split
+    · exact h1
     generalize (if Variant.fixed.fixPolName = true then (s.cache.provName p.id).getD p.name else p.name) = nm
     cases Auth.provPolicyCheck s.cache.A nm p with
     | some o => exact h1
     | none =>
     simp only
+    split
+    · exact h1
     cases hup : s.cache.P.update p with
     | mk P' e =>
       cases e with
@@ -2296,8 +2355,8 @@ theorem auth_super_remains (U : List Prov) (hU : SumsOK U) (f : Faults) (s : Aut
         simp only
         by_cases hb : 0 + 1 ∈ f
         · simp only [List.contains_eq_mem, hb, decide_true, if_true]
-          rw [(afterFail_frame f
-            { cache := { P := P', A := s.cache.A }, db := s.db, engine := s.engine, calls := 0 + 1 } .storeFailed).1]
+          rw [(afterFailUndo_frame _ f
+            { cache := { P := P', A := s.cache.A }, db := s.db, engine := s.engine, calls := 0 + 1 } .storeFailed _).1]
           exact h1
         · simp only [List.contains_eq_mem, hb, decide_false, Bool.false_eq_true, if_false]
           split
@@ -2305,7 +2364,7 @@ theorem auth_super_remains (U : List Prov) (hU : SumsOK U) (f : Faults) (s : Aut
           split
           · rw [(afterFail_frame f
               { cache := { P := P', A := s.cache.A },
-                db := { provs := s.db.provs.map (fun q => if q.id = p.id then p else q), adms := s.db.adms, policy := s.db.policy },
+                db := { provs := s.db.provs.map (fun q => if q.id = p.id then p else q), adms := s.db.adms, policy := s.db.policy, used := s.db.used },
                 engine := s.engine, calls := 0 + 1 } .ok).1]
             exact h1
           · exact h1
@@ -2318,9 +2377,9 @@ theorem auth_super_remains (U : List Prov) (hU : SumsOK U) (f : Faults) (s : Aut
       simp only
       split
       · exact h1
-      have hl := removeAdmins_super U hU f (((s.cache.A.byProv.get p.name).getD []).map (·.id))
+      have hl := removeAdmins_super U hU Variant.fixed f (((s.cache.A.byProv.get p.name).getD []).map (·.id))
         { s with calls := 0 } E hE h1
-      generalize Auth.removeAdmins f { s with calls := 0 } (((s.cache.A.byProv.get p.name).getD []).map (·.id)) = r at *
+      generalize Auth.removeAdmins Variant.fixed f { s with calls := 0 } (((s.cache.A.byProv.get p.name).getD []).map (·.id)) = r at *
       split
       · exact hl
       cases hrem : r.1.cache.P.remove p.id with
@@ -2331,8 +2390,8 @@ theorem auth_super_remains (U : List Prov) (hU : SumsOK U) (f : Faults) (s : Aut
           simp only [tick]
           by_cases hb : r.1.calls + 1 ∈ f
           · simp only [List.contains_eq_mem, hb, decide_true, if_true]
-            rw [(afterFail_frame f
-              { cache := { P := P', A := r.1.cache.A }, db := r.1.db, engine := r.1.engine, calls := r.1.calls + 1 } .storeFailed).1]
+            rw [(afterFailUndo_frame _ f
+              { cache := { P := P', A := r.1.cache.A }, db := r.1.db, engine := r.1.engine, calls := r.1.calls + 1 } .storeFailed _).1]
             exact hl
           · simp only [List.contains_eq_mem, hb, decide_false, Bool.false_eq_true, if_false]
             exact hl
@@ -2444,16 +2503,16 @@ theorem two_supers {l : List Adm} (nd : (l.map (·.id)).Nodup) {a b : Adm} (ha :
   simp only [sa, if_true] at h1
   omega
 
-theorem removeAdmin1_ok (U : List Prov) (f : Faults) (s : Auth) (E : List Ent) (h : Agrees U s.cache s.db E)
+theorem removeAdmin1_ok (U : List Prov) (v : Variant) (f : Faults) (s : Auth) (E : List Ent) (h : Agrees U s.cache s.db E)
     (hf : s.calls + 1 ∉ f) {n : Str} {adm : Adm} (hE : (n, adm) ∈ E)
-    (hlast : ¬(adm.super = true ∧ s.cache.A.superCount = 1)) : (Auth.removeAdmin1 f s adm.id).2 = .ok := by
+    (hlast : ¬(adm.super = true ∧ s.cache.A.superCount = 1)) : (Auth.removeAdmin1 v f s adm.id).2 = .ok := by
   obtain ⟨A', hr⟩ := cache_remove_succeeds h.pinv h.ast.ainv h.ast.grep h.ast.linked hE hlast
   unfold Auth.removeAdmin1
   simp only [hr, tick, List.contains_eq_mem, hf, decide_false, Bool.false_eq_true, if_false]
 
-theorem removeAdmins_ok (U : List Prov) (hU : SumsOK U) : ∀ (ids : List Str) (s : Auth) (E : List Ent),
+theorem removeAdmins_ok (U : List Prov) (hU : SumsOK U) (v : Variant) : ∀ (ids : List Str) (s : Auth) (E : List Ent),
     Agrees U s.cache s.db E → ids.Nodup → (∀ id ∈ ids, ∃ n adm, (n, adm) ∈ E ∧ adm.id = id) →
-    (∃ m a0, (m, a0) ∈ E ∧ a0.super = true ∧ a0.id ∉ ids) → (Auth.removeAdmins [] s ids).2 = .ok
+    (∃ m a0, (m, a0) ∈ E ∧ a0.super = true ∧ a0.id ∉ ids) → (Auth.removeAdmins v [] s ids).2 = .ok
   | [], s, _, _, _, _, _ => by unfold Auth.removeAdmins; rfl
   | id :: r, s, E, h, hnd, hids, ⟨m, a0, ha0, hs0, hnot⟩ => by
     obtain ⟨n, adm, hE, hid⟩ := hids id List.mem_cons_self
@@ -2465,14 +2524,14 @@ theorem removeAdmins_ok (U : List Prov) (hU : SumsOK U) : ∀ (ids : List Str) (
       have := h.ast.cinv
       unfold CInv supers at this
       omega
-    have hok := removeAdmin1_ok U [] s E h (by simp) hE hlast
+    have hok := removeAdmin1_ok U v [] s E h (by simp) hE hlast
     rw [hid] at hok
     unfold Auth.removeAdmins
     simp only
     rw [if_pos hok]
-    have hag := ((removeAdmin1_spec U hU [] s id E h).1 hok).1
+    have hag := ((removeAdmin1_spec U hU v [] s id E h).1 hok).1
     rw [List.nodup_cons] at hnd
-    apply removeAdmins_ok U hU r _ _ hag hnd.2
+    apply removeAdmins_ok U hU v r _ _ hag hnd.2
     · intro id' hid'
       obtain ⟨n', adm', hE', hid2⟩ := hids id' (List.mem_cons_of_mem _ hid')
       refine ⟨n', adm', ?_, hid2⟩
@@ -2534,19 +2593,19 @@ theorem removeProv_complete (U : List Prov) (hU : SumsOK U) (v : Variant) (s : A
     intro i hi
     obtain ⟨x, hx, rfl⟩ := List.mem_map.mp hi
     exact ⟨p.name, x, (hE.ast.grep.grp p.name x).mp hx, rfl⟩
-  have hloop := removeAdmins_ok U hU (((s.cache.A.byProv.get p.name).getD []).map (·.id)) { s with calls := 0 } E hE
+  have hloop := removeAdmins_ok U hU v (((s.cache.A.byProv.get p.name).getD []).map (·.id)) { s with calls := 0 } E hE
     (hE.ast.grep.gnd p.name) hids
     ⟨m0, a0, hm0, hs0, by
       intro hin
       have := (group_is_provisioner hE hpl ha0l).mp (by simpa [group] using hin)
       rw [hpid] at this; exact hne0 this⟩
   -- with the loop done, nothing else can refuse
-  have hag := (removeAdmins_spec U hU [] (((s.cache.A.byProv.get p.name).getD []).map (·.id))
+  have hag := (removeAdmins_spec U hU v [] (((s.cache.A.byProv.get p.name).getD []).map (·.id))
     { s with calls := 0 } E hE).1 hloop
   unfold Auth.step
   simp only [hg]
   rw [if_neg hguard, if_neg (by simpa using hloop)]
-  generalize Auth.removeAdmins [] { s with calls := 0 } (((s.cache.A.byProv.get p.name).getD []).map (·.id)) = r at *
+  generalize Auth.removeAdmins v [] { s with calls := 0 } (((s.cache.A.byProv.get p.name).getD []).map (·.id)) = r at *
   have hrs := PColl.remove_succeeds hag.1.pinv (p := p) (by rw [hag.2.1]; exact hpl)
   cases hrem : r.1.cache.P.remove p.id with
   | mk P' e =>
@@ -2654,9 +2713,14 @@ theorem prov_policy_no_lockout {U : List Prov} {s : Auth} (h : FullInv U s) (p :
   obtain ⟨q, hq, hqid⟩ := hreg
   have hql := (hE.agreeP q).mpr hq
   have hname : s.cache.provName p.id = some q.name := hE.pinv.provName.mpr ⟨q, hql, hqid, rfl⟩
+  have hconv : p.conv = true := by
+    cases hcv : p.conv with
+    | true => rfl
+    | false => unfold Auth.step at hout; simp [Variant.fixed, hcv] at hout
   have hc : Auth.provPolicyCheck s.cache.A q.name p = none := by
     unfold Auth.step at hout
-    simp only [tick, Variant.fixed, if_true, hname, Option.getD_some] at hout
+    simp only [tick, Variant.fixed, if_true, hname, Option.getD_some, hconv, Bool.true_eq_false, and_false,
+      if_false] at hout
     cases hpc : Auth.provPolicyCheck s.cache.A q.name p with
     | none => rfl
     | some o =>
@@ -2926,16 +2990,16 @@ theorem dropWhile_filter_sorted {α : Type} {key : α → Str} (q : α → Bool)
     have ih := dropWhile_filter_sorted q c (l := r) hs.2
     by_cases hx : slt (key x) c = true
     · have e1 : (x :: r).dropWhile (fun e => slt (key e) c) = r.dropWhile (fun e => slt (key e) c) := by
-        simp [List.dropWhile_cons, hx]
+        simp [hx]
       rw [e1]
       by_cases hq : q x = true
       · rw [List.filter_cons_of_pos hq]
         have e2 : (x :: r.filter q).dropWhile (fun e => slt (key e) c) = (r.filter q).dropWhile (fun e => slt (key e) c) := by
-          simp [List.dropWhile_cons, hx]
+          simp [hx]
         rw [e2]; exact ih
       · rw [List.filter_cons_of_neg hq]; exact ih
     · have e1 : (x :: r).dropWhile (fun e => slt (key e) c) = x :: r := by
-        simp [List.dropWhile_cons, hx]
+        simp [hx]
       rw [e1]
       apply dropWhile_eq_self_of_head
       intro y hy
@@ -3063,5 +3127,899 @@ theorem cstep_rejected_unchanged (v : Variant) (U : List Prov) (hU : SumsOK U) (
       cases hr2 : r.2 with
       | none => rw [hr2] at href; simp [aOut, isRefusal] at href
       | some e => rw [hsame (by rw [hr2]; simp)]
+
+
+/-! ## the stored set of used tokens is only ever extended by requests -/
+
+theorem removeAdmin1_used (v : Variant) (f : Faults) (s : Auth) (id : Str) :
+    (Auth.removeAdmin1 v f s id).1.db.used = s.db.used := by
+  unfold Auth.removeAdmin1
+  cases hr : s.cache.A.remove s.cache.provName id with
+  | crash => rfl
+  | val r =>
+    obtain ⟨A', e⟩ := r
+    cases e with
+    | some e => rfl
+    | none =>
+      simp only [tick]
+      by_cases hb : s.calls + 1 ∈ f
+      · simp only [List.contains_eq_mem, hb, decide_true, if_true]
+        have := fun u => afterFailUndo_frame v f
+          { cache := { P := s.cache.P, A := A' }, db := s.db, engine := s.engine, calls := s.calls + 1 } .storeFailed u
+        rw [(this _).1]
+      · simp [hb]
+
+theorem removeAdmins_used (v : Variant) (f : Faults) : ∀ (ids : List Str) (s : Auth),
+    (Auth.removeAdmins v f s ids).1.db.used = s.db.used
+  | [], s => by unfold Auth.removeAdmins; rfl
+  | id :: r, s => by
+    unfold Auth.removeAdmins
+    simp only
+    have h1 := removeAdmin1_used v f s id
+    split
+    · have := removeAdmins_used v f r (Auth.removeAdmin1 v f s id).1
+      rw [this, h1]
+    · exact h1
+
+/-- administrator and provisioner operations never touch the stored set of used tokens -/
+theorem step_used0 (v : Variant) (f : Faults) (s : Auth) (op : AOp) (hop : isPolicyOp op = false) :
+    (Auth.step v f s op).1.db.used = s.db.used := by
+  cases op with
+  | storeAdmin a pid pname =>
+    unfold Auth.step
+    simp only [tick]
+    split
+    · rfl
+    split
+    · rfl
+    by_cases hb : 0 + 1 ∈ f
+    · simp [hb]
+    simp only [List.contains_eq_mem, hb, decide_false, Bool.false_eq_true, if_false]
+    by_cases hany' : (s.db.adms.any fun x => decide (x.id = a.id)) = true
+    · simp only [hany', if_true]
+    have hany : (s.db.adms.any fun x => decide (x.id = a.id)) = false := by simpa using hany'
+    simp only [hany, Bool.false_eq_true, if_false]
+    cases hst : s.cache.A.store a pid pname with
+    | mk A e =>
+      cases e with
+      | none => rfl
+      | some e =>
+        have := afterFail_frame f
+          { cache := { P := s.cache.P, A := A },
+            db := { provs := s.db.provs, adms := insDB (fun x => x.id) a s.db.adms, policy := s.db.policy, used := s.db.used },
+            engine := s.engine, calls := 0 + 1 } .cacheFailed
+        rw [this.1]
+  | updateAdmin id t =>
+    unfold Auth.step
+    simp only [tick]
+    split
+    · rfl
+    · rfl
+    · rename_i A _
+      by_cases hb : 0 + 1 ∈ f
+      · simp only [List.contains_eq_mem, hb, decide_true, if_true]
+        have := fun u => afterFailUndo_frame v f
+          { cache := { P := s.cache.P, A := A }, db := s.db, engine := s.engine, calls := 0 + 1 } .storeFailed u
+        rw [(this _).1]
+      · simp [hb]
+  | removeAdmin id =>
+    unfold Auth.step
+    exact removeAdmin1_used v f { s with calls := 0 } id
+  | storeProv p =>
+    unfold Auth.step
+    simp only [tick]
+    split
+    · rfl
+    split
+    · rfl
+    split
+    · rfl
+    split
+    · rfl
+    split
+    · rfl
+    by_cases hb : 0 + 1 ∈ f
+    · simp [hb]
+    simp only [List.contains_eq_mem, hb, decide_false, Bool.false_eq_true, if_false]
+    by_cases hany' : (s.db.provs.any fun x => decide (x.id = p.id)) = true
+    · simp only [hany', if_true]
+    have hany : (s.db.provs.any fun x => decide (x.id = p.id)) = false := by simpa using hany'
+    simp only [hany, Bool.false_eq_true, if_false]
+    cases hst : s.cache.P.store p with
+    | mk P e =>
+      cases e with
+      | none => rfl
+      | some e =>
+        have := afterFail_frame f
+          { cache := { P := P, A := s.cache.A },
+            db := { provs := insDB (fun x => x.id) p s.db.provs, adms := s.db.adms, policy := s.db.policy, used := s.db.used },
+            engine := s.engine, calls := 0 + 1 } .cacheFailed
+        rw [this.1]
+  | updateProv p =>
+    unfold Auth.step
+    simp only [tick]
+    split
+    · rfl
+    split
+    · rfl
+    split
+    · rfl
+    split
+    · rfl
+    · rfl
+    · rename_i P _
+      by_cases hb : 0 + 1 ∈ f
+      · simp only [List.contains_eq_mem, hb, decide_true, if_true]
+        have := fun u => afterFailUndo_frame v f
+          { cache := { P := P, A := s.cache.A }, db := s.db, engine := s.engine, calls := 0 + 1 } .storeFailed u
+        rw [(this _).1]
+      · simp only [List.contains_eq_mem, hb, decide_false, Bool.false_eq_true, if_false]
+        split
+        · cases buildCache.goA P {} s.cache.A.sorted <;> rfl
+        split
+        · have := afterFail_frame f
+            { cache := { P := P, A := s.cache.A },
+              db := { provs := s.db.provs.map (fun q => if q.id = p.id then p else q), adms := s.db.adms, policy := s.db.policy, used := s.db.used },
+              engine := s.engine, calls := 0 + 1 } .ok
+          rw [this.1]
+        · rfl
+  | removeProv id =>
+    unfold Auth.step
+    simp only [tick]
+    split
+    · rfl
+    split
+    · rfl
+    rename_i p _ _
+    have hl := removeAdmins_used v f (((s.cache.A.byProv.get p.name).getD []).map (·.id)) { s with calls := 0 }
+    split
+    · exact hl
+    generalize Auth.removeAdmins v f { s with calls := 0 } (((s.cache.A.byProv.get p.name).getD []).map (·.id)) = r at *
+    split
+    · exact hl
+    · rename_i P' _
+      by_cases hb : r.1.calls + 1 ∈ f
+      · simp only [List.contains_eq_mem, hb, decide_true, if_true]
+        have := fun u => afterFailUndo_frame v f
+          { cache := { P := P', A := r.1.cache.A }, db := r.1.db, engine := r.1.engine, calls := r.1.calls + 1 } .storeFailed u
+        rw [(this _).1]; exact hl
+      · simp only [List.contains_eq_mem, hb, decide_false, Bool.false_eq_true, if_false]
+        exact hl
+  | createPolicy cur p => simp [isPolicyOp] at hop
+  | updatePolicy cur p => simp [isPolicyOp] at hop
+  | removePolicy => simp [isPolicyOp] at hop
+  | restart => simp [isPolicyOp] at hop
+
+theorem policyWrite_used (v : Variant) (f : Faults) (s : Auth) (cur : Str) (p : Pol) (create : Bool) :
+    (Auth.policyWrite v f s cur p create).1.db.used = s.db.used := by
+  unfold Auth.policyWrite
+  simp only [tick]
+  by_cases hb : s.calls + 1 ∈ f
+  · simp [hb]
+  simp only [List.contains_eq_mem, hb, decide_false, Bool.false_eq_true, if_false]
+  cases Auth.polOut (polCheck p (cur :: s.db.adms.map (·.sub))) with
+  | some o => rfl
+  | none =>
+    simp only
+    by_cases hb2 : s.calls + 1 + 1 ∈ f
+    · simp [hb2]
+    simp only [hb2, decide_false, Bool.false_eq_true, if_false]
+    by_cases h1' : (create && s.db.policy.isSome) = true
+    · simp [h1']
+    have h1 : (create && s.db.policy.isSome) = false := Bool.eq_false_iff.mpr h1'
+    simp only [h1, Bool.false_eq_true, if_false]
+    by_cases h2' : (!create && s.db.policy.isNone) = true
+    · simp [h2']
+    have h2 : (!create && s.db.policy.isNone) = false := Bool.eq_false_iff.mpr h2'
+    simp only [h2, Bool.false_eq_true, if_false]
+    rw [reloadPolicy_db]
+
+/-- no authority operation, restart or storage failure removes a used-token record -/
+theorem step_used (v : Variant) (f : Faults) (s : Auth) (op : AOp) :
+    (Auth.step v f s op).1.db.used = s.db.used := by
+  by_cases hop : isPolicyOp op = false
+  · exact step_used0 v f s op hop
+  cases op with
+  | createPolicy cur p => unfold Auth.step; exact policyWrite_used v f _ cur p true
+  | updatePolicy cur p => unfold Auth.step; exact policyWrite_used v f _ cur p false
+  | removePolicy =>
+    unfold Auth.step
+    simp only [tick]
+    by_cases hb : 0 + 1 ∈ f
+    · simp [hb]
+    simp only [List.contains_eq_mem, hb, decide_false, Bool.false_eq_true, if_false]
+    cases s.db.policy with
+    | none => rfl
+    | some q => simp only; rw [reloadPolicy_db]
+  | restart =>
+    unfold Auth.step
+    simp only
+    have := reload_frame f { s with calls := 0 }
+    cases hb : reload f { s with calls := 0 } with
+    | mk s' b =>
+      rw [hb] at this
+      cases b <;> simp only <;> rw [this.1]
+  | storeAdmin a pid pname => simp [isPolicyOp] at hop
+  | updateAdmin id t => simp [isPolicyOp] at hop
+  | removeAdmin id => simp [isPolicyOp] at hop
+  | storeProv p => simp [isPolicyOp] at hop
+  | updateProv p => simp [isPolicyOp] at hop
+  | removeProv id => simp [isPolicyOp] at hop
+
+theorem authorizeAdmin_used_mono (A : AColl) (used : List Str) (r : AdminReq) (k : Str) (hk : k ∈ used) :
+    k ∈ (authorizeAdmin A used r).1 := by
+  unfold authorizeAdmin
+  repeat' split
+  all_goals first | exact hk | (unfold record; split <;> simp [hk])
+
+theorem event_used_mono (v : Variant) (s : Auth) (e : Event) (k : Str) (hk : k ∈ s.db.used) :
+    k ∈ (s.event v e).1.db.used := by
+  cases e with
+  | request r => exact authorizeAdmin_used_mono s.cache.A s.db.used r k hk
+  | op o f => simp only [Auth.event]; rw [step_used]; exact hk
+
+theorem events_used_mono (v : Variant) : ∀ (evs : List Event) (s : Auth) (k : Str), k ∈ s.db.used →
+    k ∈ (Auth.events v s evs).db.used
+  | [], _, _, hk => hk
+  | e :: r, s, k, hk => events_used_mono v r _ k (event_used_mono v s e k hk)
+
+/-- **single use, across everything** — once a request carrying a token with reuse key `k` has
+    been authorized, no later request with the same key is ever authorized again: not after other
+    requests, not after any administrative operations with any storage failures, and not after any
+    number of restarts (the record is in the database, not in the process). -/
+theorem token_single_use_across_history (v : Variant) (s : Auth) (r : AdminReq) (k : Str) (adm : Adm)
+    (hk : r.reuseKey = some k) (hok : (s.request r).2 = .ok adm) (evs : List Event) (r' : AdminReq)
+    (hk' : r'.reuseKey = some k) (adm' : Adm) :
+    ((Auth.events v (s.request r).1 evs).request r').2 ≠ .ok adm' := by
+  have h1 : k ∈ (s.request r).1.db.used := (admin_token_single_use s.cache.A s.db.used r k hk).2 adm hok
+  have h2 := events_used_mono v evs _ k h1
+  exact (admin_token_single_use _ _ r' k hk').1 h2 adm'
+
+example : (({ cache := { A := tokA } } : Auth).request (patchReq "GET" "ord")).2 = .ok ordAdm ∧
+    ((Auth.events current (({ cache := { A := tokA } } : Auth).request (patchReq "GET" "ord")).1
+        [.op .restart [], .op (.removeAdmin (s "zz")) [1, 2]]).request (patchReq "GET" "ord")).2 = .unauthorized := by
+  decide
+
+/-! ## every route of the admin API is behind the token check -/
+
+/-- **admin_routes_authenticated** (table, re-derived from handler.go on every run) — the first
+    middleware of every registered admin-API route is `extractAuthorizeTokenAdmin`, and every route
+    has a handler behind it. -/
+theorem admin_routes_authenticated :
+    ∀ rt ∈ adminRoutes, rt.chain.head? = some authMw ∧ 2 ≤ rt.chain.length := by decide
+
+/-- **route_handler_only_if_authorized** — on every registered route, nothing after the first
+    middleware (the other middlewares, the handler) runs unless `AuthorizeAdminToken` authorized
+    the request — with everything `admin_token_only_if` says about such a request. -/
+theorem route_handler_only_if_authorized (rt : Route) (hrt : rt ∈ adminRoutes) (s : Auth) (r : AdminReq)
+    (h : rt.pastAuth (s.request r).2 = true) : ∃ adm, (s.request r).2 = .ok adm := by
+  have hd := (admin_routes_authenticated rt hrt).1
+  unfold Route.pastAuth at h
+  cases hc : rt.chain with
+  | nil => rw [hc] at hd; simp at hd
+  | cons m rest =>
+    rw [hc] at hd h
+    simp only [List.head?_cons, Option.some.injEq] at hd
+    simp only [hd, if_true] at h
+    cases hres : (s.request r).2 with
+    | ok adm => exact ⟨adm, rfl⟩
+    | unauthorized => rw [hres] at h; cases h
+    | provNotFound => rw [hres] at h; cases h
+
+/-- the routes on the two administrator paths: two reads, three writes (POST, PATCH, DELETE) -/
+theorem admin_write_routes :
+    (adminRoutes.filter (fun rt => (rt.path = "/admins" ∨ rt.path = "/admins/{id}") ∧ rt.method ≠ "GET")).map
+      (fun rt => (rt.method, rt.path)) = [("POST", "/admins"), ("PATCH", "/admins/{id}"), ("DELETE", "/admins/{id}")] := by
+  decide
+
+/-- no two registrations for the same method and path -/
+theorem admin_routes_distinct : (adminRoutes.map (fun rt => (rt.method, rt.path))).Nodup := by decide
+
+/-! ## every stored provisioner can be built again (F4, 17718b3)
+
+`ProvisionerToCertificates` is the first thing `StoreProvisioner` and `UpdateProvisioner` do, and
+it is what `ReloadAdminResources` (start-up, and every reload after a failed write) does with each
+stored record. A record whose details are not the ones of its type is stored under its type and
+reads back without content; building it dereferences nil. The repaired conversion refuses such a
+record before anything is written, so the set of stored records stays buildable. -/
+
+/-- every provisioner record in the database can be converted back into a provisioner -/
+def Conv (s : Auth) : Prop := ∀ p ∈ s.db.provs, p.conv = true
+
+theorem removeAdmin1_provs (v : Variant) (f : Faults) (s : Auth) (id : Str) :
+    (Auth.removeAdmin1 v f s id).1.db.provs = s.db.provs := by
+  unfold Auth.removeAdmin1
+  cases hr : s.cache.A.remove s.cache.provName id with
+  | crash => rfl
+  | val r =>
+    obtain ⟨A', e⟩ := r
+    cases e with
+    | some e => rfl
+    | none =>
+      simp only [tick]
+      by_cases hb : s.calls + 1 ∈ f
+      · simp only [List.contains_eq_mem, hb, decide_true, if_true]
+        have := fun u => afterFailUndo_frame v f
+          { cache := { P := s.cache.P, A := A' }, db := s.db, engine := s.engine, calls := s.calls + 1 } .storeFailed u
+        rw [(this _).1]
+      · simp [hb]
+
+theorem removeAdmins_provs (v : Variant) (f : Faults) : ∀ (ids : List Str) (s : Auth),
+    (Auth.removeAdmins v f s ids).1.db.provs = s.db.provs
+  | [], s => by unfold Auth.removeAdmins; rfl
+  | id :: r, s => by
+    unfold Auth.removeAdmins
+    simp only
+    have h1 := removeAdmin1_provs v f s id
+    split
+    · have := removeAdmins_provs v f r (Auth.removeAdmin1 v f s id).1
+      rw [this, h1]
+    · exact h1
+
+theorem policyWrite_provs (v : Variant) (f : Faults) (s : Auth) (cur : Str) (p : Pol) (create : Bool) :
+    (Auth.policyWrite v f s cur p create).1.db.provs = s.db.provs := by
+  unfold Auth.policyWrite
+  simp only [tick]
+  by_cases hb : s.calls + 1 ∈ f
+  · simp [hb]
+  simp only [List.contains_eq_mem, hb, decide_false, Bool.false_eq_true, if_false]
+  cases Auth.polOut (polCheck p (cur :: s.db.adms.map (·.sub))) with
+  | some o => rfl
+  | none =>
+    simp only
+    by_cases hb2 : s.calls + 1 + 1 ∈ f
+    · simp [hb2]
+    simp only [hb2, decide_false, Bool.false_eq_true, if_false]
+    by_cases h1' : (create && s.db.policy.isSome) = true
+    · simp [h1']
+    have h1 : (create && s.db.policy.isSome) = false := Bool.eq_false_iff.mpr h1'
+    simp only [h1, Bool.false_eq_true, if_false]
+    by_cases h2' : (!create && s.db.policy.isNone) = true
+    · simp [h2']
+    have h2 : (!create && s.db.policy.isNone) = false := Bool.eq_false_iff.mpr h2'
+    simp only [h2, Bool.false_eq_true, if_false]
+    rw [reloadPolicy_db]
+
+/-- where the stored provisioner records of the next state come from: they were stored before, or
+    they are the record of this very `StoreProvisioner` / `UpdateProvisioner` — and then, in the
+    repaired code, a record that got past the conversion -/
+theorem step_provs_mem (v : Variant) (f : Faults) (s : Auth) (op : AOp) :
+    ∀ q ∈ (Auth.step v f s op).1.db.provs,
+      q ∈ s.db.provs ∨ ((op = .storeProv q ∨ op = .updateProv q) ∧ (v.fixDetails = true → q.conv = true)) := by
+  intro q
+  cases op with
+  | storeAdmin a pid pname =>
+    unfold Auth.step
+    simp only [tick]
+    split
+    · exact fun h => .inl h
+    split
+    · exact fun h => .inl h
+    by_cases hb : 0 + 1 ∈ f
+    · simp only [List.contains_eq_mem, hb, decide_true, if_true]; exact fun h => .inl h
+    simp only [List.contains_eq_mem, hb, decide_false, Bool.false_eq_true, if_false]
+    by_cases hany' : (s.db.adms.any fun x => decide (x.id = a.id)) = true
+    · simp only [hany', if_true]; exact fun h => .inl h
+    have hany : (s.db.adms.any fun x => decide (x.id = a.id)) = false := by simpa using hany'
+    simp only [hany, Bool.false_eq_true, if_false]
+    cases hst : s.cache.A.store a pid pname with
+    | mk A e =>
+      cases e with
+      | none => exact fun h => .inl h
+      | some e =>
+        have := afterFail_frame f
+          { cache := { P := s.cache.P, A := A },
+            db := { provs := s.db.provs, adms := insDB (fun x => x.id) a s.db.adms, policy := s.db.policy, used := s.db.used },
+            engine := s.engine, calls := 0 + 1 } .cacheFailed
+        simp only
+        rw [this.1]; exact fun h => .inl h
+  | updateAdmin id t =>
+    unfold Auth.step
+    simp only [tick]
+    split
+    · exact fun h => .inl h
+    · exact fun h => .inl h
+    · rename_i A _
+      by_cases hb : 0 + 1 ∈ f
+      · simp only [List.contains_eq_mem, hb, decide_true, if_true]
+        have := fun u => afterFailUndo_frame v f
+          { cache := { P := s.cache.P, A := A }, db := s.db, engine := s.engine, calls := 0 + 1 } .storeFailed u
+        rw [(this _).1]; exact fun h => .inl h
+      · simp only [List.contains_eq_mem, hb, decide_false, Bool.false_eq_true, if_false]; exact fun h => .inl h
+  | removeAdmin id =>
+    unfold Auth.step
+    rw [removeAdmin1_provs v f { s with calls := 0 } id]; exact fun h => .inl h
+  | storeProv p =>
+    unfold Auth.step
+    simp only [tick]
+    by_cases hg : v.fixDetails = true ∧ p.conv = false
+    · rw [if_pos hg]; exact fun h => .inl h
+    rw [if_neg hg]
+    have hconv : v.fixDetails = true → p.conv = true := by
+      intro hv
+      cases hc : p.conv with
+      | true => rfl
+      | false => exact absurd ⟨hv, hc⟩ hg
+    split
+    · exact fun h => .inl h
+    split
+    · exact fun h => .inl h
+    split
+    · exact fun h => .inl h
+    split
+    · exact fun h => .inl h
+    by_cases hb : 0 + 1 ∈ f
+    · simp only [List.contains_eq_mem, hb, decide_true, if_true]; exact fun h => .inl h
+    simp only [List.contains_eq_mem, hb, decide_false, Bool.false_eq_true, if_false]
+    by_cases hany' : (s.db.provs.any fun x => decide (x.id = p.id)) = true
+    · simp only [hany', if_true]; exact fun h => .inl h
+    have hany : (s.db.provs.any fun x => decide (x.id = p.id)) = false := by simpa using hany'
+    simp only [hany, Bool.false_eq_true, if_false]
+    have key : q ∈ insDB (fun x => x.id) p s.db.provs →
+        q ∈ s.db.provs ∨ ((AOp.storeProv p = .storeProv q ∨ AOp.storeProv p = .updateProv q) ∧ (v.fixDetails = true → q.conv = true)) := by
+      intro h
+      rcases mem_insertBy.mp h with e | h
+      · subst e; exact .inr ⟨.inl rfl, hconv⟩
+      · exact .inl h
+    cases hst : s.cache.P.store p with
+    | mk P e =>
+      cases e with
+      | none => exact key
+      | some e =>
+        have := afterFail_frame f
+          { cache := { P := P, A := s.cache.A },
+            db := { provs := insDB (fun x => x.id) p s.db.provs, adms := s.db.adms, policy := s.db.policy, used := s.db.used },
+            engine := s.engine, calls := 0 + 1 } .cacheFailed
+        simp only
+        rw [this.1]; exact key
+  | updateProv p =>
+    unfold Auth.step
+    simp only [tick]
+    by_cases hg : v.fixDetails = true ∧ p.conv = false
+    · rw [if_pos hg]; exact fun h => .inl h
+    rw [if_neg hg]
+    have hconv : v.fixDetails = true → p.conv = true := by
+      intro hv
+      cases hc : p.conv with
+      | true => rfl
+      | false => exact absurd ⟨hv, hc⟩ hg
+    have key : q ∈ s.db.provs.map (fun x => if x.id = p.id then p else x) →
+        q ∈ s.db.provs ∨ ((AOp.updateProv p = .storeProv q ∨ AOp.updateProv p = .updateProv q) ∧ (v.fixDetails = true → q.conv = true)) := by
+      intro h
+      obtain ⟨x, hx, e⟩ := List.mem_map.mp h
+      by_cases hid : x.id = p.id
+      · rw [if_pos hid] at e; subst e; exact .inr ⟨.inr rfl, hconv⟩
+      · rw [if_neg hid] at e; subst e; exact .inl hx
+    split
+    · exact fun h => .inl h
+    split
+    · exact fun h => .inl h
+    split
+    · exact fun h => .inl h
+    · exact fun h => .inl h
+    · rename_i P _
+      by_cases hb : 0 + 1 ∈ f
+      · simp only [List.contains_eq_mem, hb, decide_true, if_true]
+        have := fun u => afterFailUndo_frame v f
+          { cache := { P := P, A := s.cache.A }, db := s.db, engine := s.engine, calls := 0 + 1 } .storeFailed u
+        rw [(this _).1]; exact fun h => .inl h
+      · simp only [List.contains_eq_mem, hb, decide_false, Bool.false_eq_true, if_false]
+        split
+        · cases buildCache.goA P {} s.cache.A.sorted <;> exact key
+        split
+        · have := afterFail_frame f
+            { cache := { P := P, A := s.cache.A },
+              db := { provs := s.db.provs.map (fun q => if q.id = p.id then p else q), adms := s.db.adms, policy := s.db.policy, used := s.db.used },
+              engine := s.engine, calls := 0 + 1 } .ok
+          rw [this.1]; exact key
+        · exact key
+  | removeProv id =>
+    unfold Auth.step
+    simp only [tick]
+    split
+    · exact fun h => .inl h
+    split
+    · exact fun h => .inl h
+    rename_i p _ _
+    have hl := removeAdmins_provs v f (((s.cache.A.byProv.get p.name).getD []).map (·.id)) { s with calls := 0 }
+    split
+    · rw [hl]; exact fun h => .inl h
+    generalize Auth.removeAdmins v f { s with calls := 0 } (((s.cache.A.byProv.get p.name).getD []).map (·.id)) = r at *
+    split
+    · rw [hl]; exact fun h => .inl h
+    · rename_i P' _
+      by_cases hb : r.1.calls + 1 ∈ f
+      · simp only [List.contains_eq_mem, hb, decide_true, if_true]
+        have := fun u => afterFailUndo_frame v f
+          { cache := { P := P', A := r.1.cache.A }, db := r.1.db, engine := r.1.engine, calls := r.1.calls + 1 } .storeFailed u
+        rw [(this _).1, hl]; exact fun h => .inl h
+      · simp only [List.contains_eq_mem, hb, decide_false, Bool.false_eq_true, if_false]
+        rw [hl]
+        exact fun h => .inl (List.mem_filter.mp h).1
+  | createPolicy cur p => unfold Auth.step; rw [policyWrite_provs]; exact fun h => .inl h
+  | updatePolicy cur p => unfold Auth.step; rw [policyWrite_provs]; exact fun h => .inl h
+  | removePolicy =>
+    unfold Auth.step
+    simp only [tick]
+    by_cases hb : 0 + 1 ∈ f
+    · simp only [List.contains_eq_mem, hb, decide_true, if_true]; exact fun h => .inl h
+    simp only [List.contains_eq_mem, hb, decide_false, Bool.false_eq_true, if_false]
+    cases s.db.policy with
+    | none => exact fun h => .inl h
+    | some q0 => simp only; rw [reloadPolicy_db]; exact fun h => .inl h
+  | restart =>
+    unfold Auth.step
+    simp only
+    have := reload_frame f { s with calls := 0 }
+    cases hb : reload f { s with calls := 0 } with
+    | mk s' b =>
+      rw [hb] at this
+      cases b <;> simp only <;> rw [this.1] <;> exact fun h => .inl h
+
+/-- **stored records stay buildable (full strength)** — in the repaired code, whatever the
+    operation, its arguments and the storage failures during it, every provisioner record in the
+    database afterwards can be converted back into a provisioner: a reload or a restart never
+    meets a record it cannot build. No hypothesis on the state other than that the records it
+    already holds are buildable. -/
+theorem stored_records_buildable (v : Variant) (hv : v.fixDetails = true) (f : Faults) (s : Auth) (op : AOp)
+    (h : Conv s) : Conv (Auth.step v f s op).1 := by
+  intro q hq
+  rcases step_provs_mem v f s op q hq with h0 | ⟨_, hc⟩
+  · exact h q h0
+  · exact hc hv
+
+theorem run_buildable (v : Variant) (hv : v.fixDetails = true) :
+    ∀ (ops : List (AOp × Faults)) (s : Auth), Conv s → Conv (Auth.run v s ops)
+  | [], _, h => h
+  | (o, f) :: r, s, h => by
+    unfold Auth.run
+    exact run_buildable v hv r _ (stored_records_buildable v hv f s o h)
+
+/-- a record with details of another type is refused and nothing changes (create and update):
+    caches, database and engine are the ones before (`calls` is the per-request call counter) -/
+theorem mismatched_details_refused (v : Variant) (hv : v.fixDetails = true) (f : Faults) (s : Auth) (p : Prov)
+    (hp : p.conv = false) :
+    Auth.step v f s (.storeProv p) = ({ s with calls := 0 }, .internalFailure) ∧
+    Auth.step v f s (.updateProv p) = ({ s with calls := 0 }, .internalFailure) := by
+  constructor <;> (unfold Auth.step; simp only [hv, hp, and_self, if_true])
+
+/-- an accepted create or update carries details of its own type -/
+theorem accepted_details_match (v : Variant) (hv : v.fixDetails = true) (f : Faults) (s : Auth) (p : Prov) :
+    ((Auth.step v f s (.storeProv p)).2 = .ok → p.conv = true) ∧
+    ((Auth.step v f s (.updateProv p)).2 = .ok → p.conv = true) := by
+  constructor <;> intro h <;> cases hc : p.conv with
+  | true => rfl
+  | false =>
+    have := mismatched_details_refused v hv f s p hc
+    first
+      | (rw [this.1] at h; cases h)
+      | (rw [this.2] at h; cases h)
+
+namespace Witness
+/-- a JWK-typed record (`kind 0`) carrying ACME details (`dkind 5`) -/
+def pMixed : Prov := { id := s "p9", name := s "n9", tok := s "t9", kid := none, sum := s "99887766554433221100ffeeddccbbaa",
+                       kind := 0, dkind := some 5 }
+end Witness
+
+/-- the hypothesis of `stored_records_buildable` is met by a started CA, and a well-formed create is accepted -/
+example : Conv (Witness.booted current) ∧
+    (Auth.step current [] (Witness.booted current) (.storeProv { Witness.pMixed with dkind := some 0 })).2 = .ok := by
+  unfold Conv; decide
+
+/-- **F4 (historic refutation: tree before `fix:` 17718b3, `Variant.detailsOpen`)** — a create
+    with the details of another type is accepted and stored, and the database then holds a record
+    that cannot be built again (the real reload / restart dereferences nil on it); the same through
+    an update of an existing provisioner. -/
+example :
+    let r := Auth.step Variant.detailsOpen [] (Witness.booted .detailsOpen) (.storeProv Witness.pMixed)
+    r.2 = .ok ∧ ¬ Conv r.1 := by
+  unfold Conv; decide
+
+example :
+    let r := Auth.step Variant.detailsOpen [] (Witness.booted .detailsOpen) (.updateProv { Witness.p0 with dkind := none })
+    r.2 = .ok ∧ ¬ Conv r.1 := by
+  unfold Conv; decide
+
+/-- … and at HEAD both are refused with nothing changed -/
+theorem mismatched_details_current :
+    (Auth.step current [] (Witness.booted current) (.storeProv Witness.pMixed)).2 = .internalFailure ∧
+    (Auth.step current [] (Witness.booted current) (.updateProv { Witness.p0 with dkind := none })).2 = .internalFailure ∧
+    (Auth.step current [] (Witness.booted current) (.storeProv Witness.pMixed)).1.db = (Witness.booted current).db := by
+  decide
+
+/-! ## request validation in front of the authority: claims, templates, webhooks -/
+
+/-- what `ValidateDurations` is meant to establish: every given duration parses and is not
+    negative, and the given ones are ordered min ≤ default ≤ max -/
+def Durs.Ordered (d : Durs) : Prop :=
+  d.min.wellFormed = true ∧ d.max.wellFormed = true ∧ d.dflt.wellFormed = true ∧
+  (d.min.present = true → d.max.present = true → d.min.value ≤ d.max.value) ∧
+  (d.min.present = true → d.dflt.present = true → d.min.value ≤ d.dflt.value) ∧
+  (d.dflt.present = true → d.max.present = true → d.dflt.value ≤ d.max.value)
+
+/-- … and what the code as it stands establishes: the same without default ≤ max -/
+def Durs.OrderedBelow (d : Durs) : Prop :=
+  d.min.wellFormed = true ∧ d.max.wellFormed = true ∧ d.dflt.wellFormed = true ∧
+  (d.min.present = true → d.max.present = true → d.min.value ≤ d.max.value) ∧
+  (d.min.present = true → d.dflt.present = true → d.min.value ≤ d.dflt.value)
+
+/-- **claims validation (full statement; holds for the comparison as announced, `cmpFixed`)** —
+    a durations block is accepted exactly when it is well formed and ordered. -/
+theorem validateDurations_fixed_iff (d : Durs) : validateDurations true d = true ↔ d.Ordered := by
+  obtain ⟨a, b, c⟩ := d
+  cases a <;> cases b <;> cases c <;>
+    simp [validateDurations, Durs.Ordered, Dur.wellFormed, Dur.present, Dur.value] <;> omega
+
+/-- **claims validation (_partial: the code as it stands)** — accepted exactly when well formed,
+    min ≤ max and min ≤ default. Missing against the full statement: default ≤ max; the last
+    comparison of `ValidateDurations` repeats min > default, which can no longer be true there. -/
+theorem validateDurations_coded_iff_partial (d : Durs) : validateDurations false d = true ↔ d.OrderedBelow := by
+  obtain ⟨a, b, c⟩ := d
+  cases a <;> cases b <;> cases c <;>
+    simp [validateDurations, Durs.OrderedBelow, Dur.wellFormed, Dur.present, Dur.value] <;> omega
+
+/-- the full statement is false for the code as it stands: max 1h, default 2h is accepted
+    (`authority.ValidateDurations(&linkedca.Durations{Max: "1h", Default: "2h"}) == nil`) -/
+example : validateDurations false { max := .val 3600, dflt := .val 7200 } = true ∧
+    ¬ Durs.Ordered { max := .val 3600, dflt := .val 7200 } := by
+  refine ⟨by decide, fun h => ?_⟩
+  have := h.2.2.2.2.2 (by decide) (by decide)
+  simp [Dur.value] at this
+
+/-- hypotheses met: an ordered block is accepted by both -/
+example : validateDurations false { min := .val 300, max := .val 86400, dflt := .val 3600 } = true ∧
+    validateDurations true { min := .val 300, max := .val 86400, dflt := .val 3600 } = true := by decide
+
+/-- a provisioner body reaches the authority exactly when it parses, every claims block present
+    is accepted and the templates validate -/
+theorem provBodyCheck_none_iff (c : Bool) (b : ProvBody) :
+    provBodyCheck c b = none ↔ b.parses = true ∧ validateClaims c b.claims = true ∧ b.templatesOK = true := by
+  unfold provBodyCheck
+  cases b.parses <;> cases validateClaims c b.claims <;> cases b.templatesOK <;> simp
+
+/-- every refusal in front of the authority is a bad request -/
+theorem provBodyCheck_some (c : Bool) (b : ProvBody) (o : AuthOut) (h : provBodyCheck c b = some o) : o = .badRequest := by
+  unfold provBodyCheck at h
+  split at h
+  · exact (Option.some.inj h).symm
+  split at h
+  · exact (Option.some.inj h).symm
+  split at h
+  · exact (Option.some.inj h).symm
+  · cases h
+
+/-- `POST /admin/provisioners` and `PUT /admin/provisioners/{name}` behind authentication: the
+    body checks, then the authority operation -/
+def Auth.apiProv (v : Variant) (c : Bool) (f : Faults) (s : Auth) (b : ProvBody) (p : Prov) (update : Bool) : Auth × AuthOut :=
+  match provBodyCheck c b with
+  | some o => (s, o)
+  | none => Auth.step v f s (if update then .updateProv p else .storeProv p)
+
+/-- **refused means untouched** — a create or update refused by the body checks leaves the whole
+    state (caches, database, engine) exactly as it was -/
+theorem api_body_refusal_unchanged (v : Variant) (c : Bool) (f : Faults) (s : Auth) (b : ProvBody) (p : Prov) (u : Bool)
+    (h : provBodyCheck c b ≠ none) : (Auth.apiProv v c f s b p u).1 = s := by
+  unfold Auth.apiProv
+  cases hb : provBodyCheck c b with
+  | none => exact absurd hb h
+  | some o => rfl
+
+/-- **accepted only if valid (full strength for what the model sees)** — a create or update
+    answered with success had a body that parses, claims blocks that are well formed and ordered
+    (as far as the code checks: `OrderedBelow`), templates that validate, and details of the
+    provisioner's own type. -/
+theorem api_accepted_only_if (f : Faults) (s : Auth) (b : ProvBody) (p : Prov) (u : Bool)
+    (h : (Auth.apiProv current false f s b p u).2 = .ok) :
+    b.parses = true ∧ (∀ d ∈ b.claims, d.OrderedBelow) ∧ b.templatesOK = true ∧ p.conv = true := by
+  unfold Auth.apiProv at h
+  cases hb : provBodyCheck false b with
+  | some o =>
+    rw [hb] at h
+    have := provBodyCheck_some false b o hb
+    simp only at h; rw [this] at h; cases h
+  | none =>
+    rw [hb] at h
+    simp only at h
+    obtain ⟨h1, h2, h3⟩ := (provBodyCheck_none_iff false b).mp hb
+    refine ⟨h1, fun d hd => ?_, h3, ?_⟩
+    · exact (validateDurations_coded_iff_partial d).mp (List.all_eq_true.mp h2 d hd)
+    · have acc := accepted_details_match current rfl f s p
+      cases u with
+      | true => exact acc.2 h
+      | false => exact acc.1 h
+
+/-- stored records stay buildable through the API as well -/
+theorem api_records_buildable (c : Bool) (f : Faults) (s : Auth) (b : ProvBody) (p : Prov) (u : Bool) (h : Conv s) :
+    Conv (Auth.apiProv current c f s b p u).1 := by
+  unfold Auth.apiProv
+  cases provBodyCheck c b with
+  | some o => exact h
+  | none => exact stored_records_buildable current rfl f s _ h
+
+/-- **webhook create** — `UpdateProvisioner` is reached exactly when the body parses, has a name,
+    an https URL with a host and without user information, a known kind, no secret and no id of
+    its own, and the name is not taken; a taken name is a conflict, everything else a bad request -/
+theorem createWebhook_proceed_iff (b : WebhookBody) :
+    createWebhookCheck b = .proceed ↔
+      b.parses = true ∧ b.nameGiven = true ∧ b.urlParses = true ∧ b.hostGiven = true ∧ b.https = true ∧
+      b.userinfo = false ∧ b.kindKnown = true ∧ b.secretGiven = false ∧ b.idGiven = false ∧ b.nameTaken = false := by
+  obtain ⟨a1, a2, a3, a4, a5, a6, a7, a8, a9, a10⟩ := b
+  cases a1 <;> cases a2 <;> cases a3 <;> cases a4 <;> cases a5 <;> cases a6 <;> cases a7 <;> cases a8 <;>
+    cases a9 <;> cases a10 <;> decide
+
+theorem createWebhook_conflict_iff (b : WebhookBody) :
+    createWebhookCheck b = .conflict ↔ createWebhookCheck { b with nameTaken := false } = .proceed ∧ b.nameTaken = true := by
+  obtain ⟨a1, a2, a3, a4, a5, a6, a7, a8, a9, a10⟩ := b
+  cases a1 <;> cases a2 <;> cases a3 <;> cases a4 <;> cases a5 <;> cases a6 <;> cases a7 <;> cases a8 <;>
+    cases a9 <;> cases a10 <;> decide
+
+/-- the table of details kinds has no duplicate: one kind of details per provisioner type -/
+theorem provisionerKinds_distinct : provisionerKinds.Nodup := by decide
+
+/-- over the table, `conv` accepts exactly the diagonal -/
+theorem conv_diagonal : ∀ k ∈ provisionerKinds, ∀ d ∈ provisionerKinds,
+    (({ id := [], name := [], tok := [], kid := none, sum := [], kind := k, dkind := some d } : Prov).conv = true ↔ k = d) := by
+  decide
+
+/-- **X.509 claims: the gap of `ValidateDurations` is closed by `Init`** — a durations block that
+    passes `ValidateDurations` as coded and the claimer's validation is fully ordered. Only the
+    X.509 block gets the second check; for the SSH blocks `validateDurations_coded_iff_partial` is
+    all there is. -/
+theorem x509_block_ordered (g : Int × Int × Int) (d : Durs) (h1 : validateDurations false d = true)
+    (h2 : claimerValidate g d = true) : d.Ordered := by
+  have h := (validateDurations_coded_iff_partial d).mp h1
+  refine ⟨h.1, h.2.1, h.2.2.1, h.2.2.2.1, h.2.2.2.2, fun hd hm => ?_⟩
+  unfold claimerValidate at h2
+  simp only [hd, hm, if_true, Bool.and_eq_true, decide_eq_true_eq] at h2
+  exact h2.2
+
+/-- hypotheses met -/
+example : validateDurations false { min := .val 300000000000, max := .val 3600000000000 } = true ∧
+    claimerValidate globalClaims { min := .val 300000000000, max := .val 3600000000000 } = false ∧
+    claimerValidate globalClaims { min := .val 300000000000, max := .val 3600000000000, dflt := .val 600000000000 } = true := by
+  decide
+
+theorem provPolicyCheck_not_ok {A : AColl} {nm : Str} {p : Prov} {o : AuthOut}
+    (h : Auth.provPolicyCheck A nm p = some o) : o ≠ .ok := by
+  unfold Auth.provPolicyCheck at h
+  cases hpp : p.pol with
+  | none => simp [hpp] at h
+  | some pol =>
+    simp only [hpp] at h
+    unfold Auth.polOut at h
+    cases hq : polCheck pol (((A.byProv.get nm).getD []).map (·.sub)) <;> rw [hq] at h <;> simp at h <;>
+      subst h <;> simp
+
+/-- **accepted only if `Init` succeeded** -/
+theorem accepted_init_ok (v : Variant) (f : Faults) (s : Auth) (p : Prov) :
+    ((Auth.step v f s (.storeProv p)).2 = .ok → p.initOK = true) ∧
+    ((Auth.step v f s (.updateProv p)).2 = .ok → p.initOK = true) := by
+  constructor <;> intro h <;> cases hc : p.initOK with
+  | true => rfl
+  | false =>
+    exfalso
+    unfold Auth.step at h
+    simp only [tick, hc, if_true] at h
+    repeat' split at h
+    all_goals first
+      | (rename_i hpc; simp only at h; exact provPolicyCheck_not_ok hpc h)
+      | (rename_i hpc; exact provPolicyCheck_not_ok hpc h)
+      | cases h
+
+/-- **refused by `Init` means untouched** — a create or update whose provisioner does not
+    initialise leaves caches, database and engine exactly as they were and reports an error -/
+theorem init_refused_unchanged (v : Variant) (f : Faults) (s : Auth) (p : Prov) (hc : p.initOK = false) :
+    ((Auth.step v f s (.storeProv p)).1 = { s with calls := 0 } ∧ (Auth.step v f s (.storeProv p)).2 ≠ .ok) ∧
+    ((Auth.step v f s (.updateProv p)).1 = { s with calls := 0 } ∧ (Auth.step v f s (.updateProv p)).2 ≠ .ok) := by
+  have hne := accepted_init_ok v f s p
+  refine ⟨⟨?_, fun h => by have := hne.1 h; rw [hc] at this; cases this⟩,
+          ⟨?_, fun h => by have := hne.2 h; rw [hc] at this; cases this⟩⟩
+  · unfold Auth.step
+    simp only [tick, hc, if_true]
+    repeat' split
+    all_goals rfl
+  · unfold Auth.step
+    simp only [tick, hc, if_true]
+    repeat' split
+    all_goals rfl
+
+/-! ## the order of checks, writes and reloads (table re-derived from the source on every run) -/
+
+/-- **checks come before writes** — in every write method of the authority, the first occurrence
+    of every call that can refuse the request lies before the first call that changes the
+    database or the caches: a refusal has nothing to undo. -/
+theorem checks_before_writes :
+    ∀ e ∈ writeOrder, ∀ c ∈ e.2, isCheckCall c = true →
+      firstIdxOf (· = c) e.2 < firstIdxOf (fun x => isDBWrite x || isCacheWrite x) e.2 := by decide
+
+/-- **a database write is never alone** — every method that writes the database also changes the
+    caches (or delegates to `removeAdmin`, which does), and a reload call stands after the
+    database write (run when that write fails; for the policy methods, always). -/
+theorem db_write_has_cache_write_and_reload :
+    ∀ e ∈ writeOrder, e.2.any isDBWrite = true →
+      e.2.any isCacheWrite = true ∧
+      ∃ r ∈ ["ReloadAdminResources", "reloadPolicyEngines"],
+        firstIdxOf isDBWrite e.2 < firstIdxOf (· = r) e.2 ∧ firstIdxOf (· = r) e.2 < e.2.length := by decide
+
+/-- exactly one database write per method (the granularity of the fault model: one failing
+    admin.DB call per write) -/
+theorem one_db_write_per_method : ∀ e ∈ writeOrder, (e.2.filter isDBWrite).length ≤ 1 := by decide
+
+theorem writeOrder_distinct : (writeOrder.map (·.1)).Nodup := by decide
+
+/-! ## the issuing provisioner of the presented certificate -/
+
+/-- what `byCertificate` returns is a listed provisioner; when the record names an id that is still
+    there, it is the provisioner with that **id** (whatever it is called now, whoever else carries
+    its old name) -/
+theorem byCertificate_recorded {P : PColl} (hp : PInv P) (o : CertOrigin) (id : Str) (p : Prov)
+    (hrec : o.recorded = some id) (hget : P.byID.get id = some p) : P.byCertificate o = some p ∧ p.id = id := by
+  refine ⟨?_, ((hp.idx_id.get_some.mp hget).2).symm⟩
+  unfold PColl.byCertificate
+  simp only [hrec, Option.bind_some, hget]
+
+/-- **admin_token_issuer (the clause "… issued to a registered administrator of the issuing
+    provisioner")** — on a consistent CA, when the certificate's database record names a
+    provisioner id that still exists, a request is authorized only on behalf of an administrator
+    registered with *that provisioner id*: renaming the provisioner, creating another one under
+    its old name and registering the same subject there do not change whose certificate it is. -/
+theorem admin_token_issuer {s : Auth} {E : List Ent} (hp : PInv s.cache.P) (ha : AInv s.cache.A)
+    (g : GRep s.cache.A E) (hl : Linked s.cache.P E) (o : CertOrigin) (r : AdminReq) (adm : Adm) (id : Str)
+    (hrec : o.recorded = some id) (hex : s.cache.P.byID.get id ≠ none)
+    (h : (s.requestFrom o r).2 = .ok adm) :
+    adm.provId = id ∧ adm ∈ s.cache.A.sorted ∧ adm.sub ∈ r.sans := by
+  cases hget : s.cache.P.byID.get id with
+  | none => exact absurd hget hex
+  | some p =>
+    have hb := byCertificate_recorded hp o id p hrec hget
+    unfold Auth.requestFrom Auth.request at h
+    simp only at h
+    generalize hres : authorizeAdmin s.cache.A s.db.used { r with prov := (s.cache.P.byCertificate o).map (·.name) } = res at h
+    obtain ⟨used', z⟩ := res
+    simp only at h
+    subst h
+    have reg := admin_token_registered hp ha g hl s.db.used used' _ adm hres
+    simp only [hb.1, Option.map_some] at reg
+    obtain ⟨q, hq, hqid, hqn⟩ := (PInv.provName hp).mp reg.2.2
+    have hpl : p ∈ s.cache.P.provs := (hp.idx_id.get_some.mp hget).1
+    have : q = p := (hp.unique hq hpl).2.1 hqn
+    refine ⟨?_, reg.1, reg.2.1⟩
+    rw [← hqid, this]; exact hb.2
+
+namespace Witness
+/-- `n0` renamed to `n2`, a new provisioner created under the old name `n0`, and `nobody` made its
+    super administrator -/
+def pNew : Prov := { id := s "p9", name := s "n0", tok := s "t9", kid := none, sum := s "99887766554433221100ffeeddccbbaa" }
+def reused (v : Variant) : Auth :=
+  Auth.run v (booted v) [(.updateProv p0', []), (.storeProv pNew, []),
+    (.storeAdmin { id := s "a9", sub := s "nobody", provId := s "p9", super := true } (s "p9") (s "n0"), [])]
+/-- a GET /admin/admins token of `nobody`, signed with a certificate issued while `p0` was called `n0` -/
+def nobodyReq : AdminReq := { patchReq "GET" "nobody" with prov := none }
+end Witness
+
+/-- **rename and reuse of the name (the scenario, on the model of HEAD)** — the certificate that
+    provisioner `p0` issued to `nobody` stays a certificate of `p0` (now `n2`), where `nobody` is no
+    administrator: refused. `step`, administrator of `p0`, is still accepted with the certificate
+    issued before the rename. Only a certificate without a database record is attributed by the
+    name in its extension. -/
+theorem renamed_issuer_current :
+    ((Witness.reused current).requestFrom { recorded := some (s "p0"), extName := some (s "n0") } Witness.nobodyReq).2 = .unauthorized ∧
+    ((Witness.reused current).requestFrom { recorded := some (s "p0"), extName := some (s "n0") }
+        { Witness.nobodyReq with sub := s "step", sans := [s "step"] }).2
+      = .ok { id := s "a0", sub := s "step", provId := s "p0", super := true } ∧
+    ((Witness.reused current).requestFrom { recorded := none, extName := some (s "n0") } Witness.nobodyReq).2
+      = .ok { id := s "a9", sub := s "nobody", provId := s "p9", super := true } := by
+  decide
+
+/-- the limit of `admin_token_issuer` as the code stands: when the recorded issuer has been
+    *deleted*, the lookup falls back to the name in the extension, and a provisioner created under
+    that name inherits the old certificates (hypothesis `hex` of the theorem fails) -/
+example :
+    let s1 := Auth.run current (Witness.booted current) [(.storeProv Witness.pNew, []),
+      (.storeAdmin { id := s "a9", sub := s "nobody", provId := s "p9", super := true } (s "p9") (s "n0"), [])]
+    -- a certificate issued by a provisioner `px` that no longer exists, whose extension says `n0`
+    (s1.requestFrom { recorded := some (s "px"), extName := some (s "n0") } Witness.nobodyReq).2
+      = .ok { id := s "a9", sub := s "nobody", provId := s "p9", super := true } := by
+  decide
 
 end Verif.Admin
